@@ -1,7 +1,14 @@
 (* C21  Instant-based procedures apply at their instant or end the link: lemmas and theorems over LLModel (the code after
-   the repair fix/C21-instant-checks) and LLSpecC21. *)
+   the repair fix/C21-instant-checks) and LLSpecC21. Independent of LL/LLProofs.v (own small frame lemmas).
+
+   Contents: the comparison = the Core's rule; frames ([keep]); a received control PDU ([hlc_cases], [accept_spec]); the
+   receive queue ([hrd_cases], [hrd_blocked]); planning never passes a waiting instant ([plan_spec]); the instant
+   ([pending_not_yet], [pending_at_instant], [advance_pending]); the invariant [Inv] through every operation ([lstep_inv],
+   [invariant_all_traces]); a waiting procedure one event later ([end_event_pending], [timeout_pending], [lstep_progress]) and
+   after any number of events ([resolved_within_distance]); no pull-back after the application ([cancel_after_applied]). *)
 From Coq Require Import NArith List Bool Lia ZifyBool.
-From BT Require Import Base.ListX LL.LLModel LL.LLSpec LL.LLSpecC21 LL.LLProofs.
+From BT Require Import Base.ListX LL.LLModel LL.LLSpec LL.LLSpecC21.
+From BT Require gen.GenLL ChanMap.ChanMapModel.
 Import ListNotations.
 Local Open Scope N_scope.
 
@@ -25,3 +32,1354 @@ Proof.
   - intros H. exists ((inst + 65536 - evc) mod 65536). split; [lia|]. nlia.
   - intros (j & Hj & ->). assert (((evc + j) mod 65536 + 65536 - evc) mod 65536 = j) by nlia. lia.
 Qed.
+
+(* ========================================================================================== frames *)
+Definition keep (s s' : lstate_t) : Prop :=
+  st s' = st s /\ cs s' = cs s /\ deferred s' = deferred s /\ def_instant s' = def_instant s /\ tm s' = tm s /\ chan s' = chan s
+  /\ rxq (bf s') = rxq (bf s).
+Ltac kp := unfold keep; repeat split; reflexivity.
+
+Lemma keep_refl s : keep s s. Proof. kp. Qed.
+Lemma keep_trans a b d : keep a b -> keep b d -> keep a d.
+Proof. unfold keep. intros (A1 & A2 & A3 & A4 & A5 & A6 & A7) (B1 & B2 & B3 & B4 & B5 & B6 & B7). repeat split; congruence. Qed.
+
+Lemma keep_push_event c s e : keep s (push_event c s e).
+Proof. unfold push_event. destruct (c_cb c); [destruct (_ <? _)|]; kp. Qed.
+Lemma keep_commit s p : keep s (commit s p).
+Proof. unfold commit. destruct (stopped (bf s)); kp. Qed.
+Lemma keep_commit_ctrl s b : keep s (commit_ctrl s b).
+Proof. apply keep_commit. Qed.
+Lemma keep_clear_cpr s : keep s (clear_cpr_feature s). Proof. kp. Qed.
+Lemma keep_handle_reject c s o b : keep s (handle_reject c s o b).
+Proof.
+  unfold handle_reject.
+  destruct (negb (o =? GenLL.LL_UNKNOWN_RSP));
+    (eapply keep_trans; [|apply keep_push_event]);
+    destruct (negb _ || _); try kp;
+    destruct (cpr_running _ && _); destruct (o =? GenLL.LL_UNKNOWN_RSP); kp.
+Qed.
+Lemma keep_encryption_changed c s b : keep s (encryption_changed c s b).
+Proof. unfold encryption_changed. destruct b; [apply keep_push_event|apply keep_refl]. Qed.
+
+(* ========================================================================================== a received control PDU *)
+Lemma hlc_cases c s body :
+  let r := handle_ll_control c s body in
+  let s' := fst (fst r) in
+  st s' = st s /\ cs s' = cs s /\ tm s' = tm s /\ chan s' = chan s /\ rxq (bf s') = rxq (bf s) /\
+  ( (deferred s' = deferred s /\ def_instant s' = def_instant s)
+    \/ snd r = DoDisconnect
+    \/ (snd r = GoAhead /\ deferred s' = Some body /\ instant_passed (def_instant s') (evc (cs s)) = false
+        /\ exists i, def_instant s' = rd16 body i)).
+Proof.
+  unfold handle_ll_control.
+  set (opcode := if 0 <? N.of_nat (length body) then byte body 0 else 255).
+  destruct (ctrl_kind c (ver_received (pr s)) opcode (N.of_nat (length body))); cbn zeta.
+  - (* KUpdate *) unfold instant_passed_update. destruct (instant_passed _ _) eqn:E; cbn [orb fst snd].
+    + repeat split; auto.
+    + destruct (_ =? _); cbn [fst snd].
+      * repeat split; auto.
+      * repeat split; try reflexivity. right. right. repeat split; try reflexivity. exact E. eexists; reflexivity.
+  - (* KTerminate *) cbn [fst snd]. repeat split; auto.
+  - (* KVersion *) cbn [fst snd].
+    assert (K : keep s (commit_ctrl (upd_pr (push_event c (if byte body 1 <=? GenLL.LL_VERSION_40 then clear_cpr_feature (set_proc_timeout s 0) else set_proc_timeout s 0)
+                (EvVersion (byte body 1) (rd16 body 2) (rd16 body 4))) (fun p => set_ver_received p true)) version_ind_pdu)).
+    { eapply keep_trans; [|apply keep_commit_ctrl]. eapply keep_trans; [|kp]. eapply keep_trans; [|apply keep_push_event].
+      destruct (_ <=? _); kp. }
+    destruct K as (K1 & K2 & K3 & K4 & K5 & K6 & K7). repeat split; auto.
+  - (* KChannelMap *) unfold instant_passed_map. destruct (instant_passed _ _) eqn:E; cbn [fst snd].
+    + repeat split; auto.
+    + repeat split; try reflexivity. right. right. repeat split; try reflexivity. exact E. eexists; reflexivity.
+  - (* KPing *) cbn [fst snd]. destruct (keep_commit_ctrl s [GenLL.LL_PING_RSP]) as (K1 & K2 & K3 & K4 & K5 & K6 & K7). repeat split; auto.
+  - (* KFeature *) cbn [fst snd].
+    match goal with |- context [commit_ctrl ?x ?y] => assert (K : keep s (commit_ctrl x y)) end.
+    { eapply keep_trans; [|apply keep_commit_ctrl]. eapply keep_trans; [|apply keep_push_event]. kp. }
+    destruct K as (K1 & K2 & K3 & K4 & K5 & K6 & K7). repeat split; auto.
+  - cbn [fst snd]. destruct (keep_handle_reject c s opcode body) as (K1 & K2 & K3 & K4 & K5 & K6 & K7). repeat split; auto.
+  - cbn [fst snd]. destruct (keep_handle_reject c s opcode body) as (K1 & K2 & K3 & K4 & K5 & K6 & K7). repeat split; auto.
+  - cbn [fst snd]. destruct (keep_handle_reject c s opcode body) as (K1 & K2 & K3 & K4 & K5 & K6 & K7). repeat split; auto.
+  - (* KCpr *) destruct (handle_cpr c s body) as [rsp it]. cbn [fst snd].
+    destruct rsp as [r0|]; [destruct (keep_commit_ctrl s r0) as (K1 & K2 & K3 & K4 & K5 & K6 & K7)|]; repeat split; auto.
+  - (* KEncReq *) cbn [fst snd].
+    match goal with |- context [commit_ctrl ?x ?y] => assert (K : keep s (commit_ctrl x y)) end.
+    { eapply keep_trans; [|apply keep_commit_ctrl]. kp. }
+    destruct K as (K1 & K2 & K3 & K4 & K5 & K6 & K7). repeat split; auto.
+  - (* KStartEncRsp *)
+    destruct (has_key (sc s) && negb (enc_prog (sc s))); cbn [fst snd];
+    match goal with |- context [commit_ctrl ?x ?y] => assert (K : keep s (commit_ctrl x y)) end.
+    { eapply keep_trans; [|apply keep_commit_ctrl]. eapply keep_trans; [|apply keep_encryption_changed]. kp. }
+    { destruct K as (K1 & K2 & K3 & K4 & K5 & K6 & K7). repeat split; auto. }
+    { apply keep_commit_ctrl. }
+    { destruct K as (K1 & K2 & K3 & K4 & K5 & K6 & K7). repeat split; auto. }
+  - (* KPauseEncReq *) cbn [fst snd].
+    match goal with |- context [commit_ctrl ?x ?y] => assert (K : keep s (commit_ctrl x y)) end.
+    { eapply keep_trans; [|apply keep_commit_ctrl]. eapply keep_trans; [|apply keep_encryption_changed]. kp. }
+    destruct K as (K1 & K2 & K3 & K4 & K5 & K6 & K7). repeat split; auto.
+  - (* KPauseEncRsp *) cbn [fst snd].
+    match goal with |- context [encryption_changed c ?x ?y] => assert (K : keep s (encryption_changed c x y)) end.
+    { eapply keep_trans; [|apply keep_encryption_changed]. kp. }
+    destruct K as (K1 & K2 & K3 & K4 & K5 & K6 & K7). repeat split; auto.
+  - (* KPhyReq *) cbn [fst snd].
+    match goal with |- context [commit_ctrl ?x ?y] => destruct (keep_commit_ctrl x y) as (K1 & K2 & K3 & K4 & K5 & K6 & K7) end. repeat split; auto.
+  - (* KPhyUpdate *)
+    destruct (valid_phy_encoding _ && _).
+    + destruct ((byte body 1 =? 0) && _).
+      * cbn [fst snd]. destruct (keep_push_event c s (EvPhy 0 0)) as (K1 & K2 & K3 & K4 & K5 & K6 & K7). repeat split; auto.
+      * destruct (instant_passed _ _) eqn:E; cbn [fst snd].
+        -- repeat split; auto.
+        -- repeat split; try reflexivity. right. right. repeat split; try reflexivity. exact E. eexists; reflexivity.
+    + cbn [fst snd].
+      match goal with |- context [commit_ctrl ?x ?y] => destruct (keep_commit_ctrl x y) as (K1 & K2 & K3 & K4 & K5 & K6 & K7) end. repeat split; auto.
+  - (* KUnknown *) cbn [fst snd].
+    match goal with |- context [commit_ctrl ?x ?y] => destruct (keep_commit_ctrl x y) as (K1 & K2 & K3 & K4 & K5 & K6 & K7) end. repeat split; auto.
+  - (* KIgnore *) cbn [fst snd]. repeat split; auto.
+Qed.
+
+(* ========================================================================================== the receive queue *)
+(* handle_received_data: the connection state is not touched; the receive queue only shrinks; either the deferred procedure is
+   as before, or the link is to be dropped, or nothing was waiting and a PDU of the queue with a reachable instant waits now *)
+Lemma hrd_cases c : forall fuel s,
+  let r := handle_received_data fuel c s in
+  let s' := fst (fst r) in
+  st s' = st s /\ cs s' = cs s /\ tm s' = tm s /\ chan s' = chan s /\ incl (rxq (bf s')) (rxq (bf s)) /\
+  ( (deferred s' = deferred s /\ def_instant s' = def_instant s)
+    \/ snd r = DoDisconnect
+    \/ (deferred s = None /\ instant_passed (def_instant s') (evc (cs s)) = false
+        /\ exists b, deferred s' = Some b /\ (exists i, def_instant s' = rd16 b i) /\ exists l, In (l, b) (rxq (bf s)))).
+Proof.
+  induction fuel as [|fuel IH]; intros s; cbn [handle_received_data].
+  - cbn. repeat split; auto using incl_refl.
+  - destruct (deferred s) eqn:D; [cbn; repeat split; auto using incl_refl|].
+    destruct (rxq (bf s)) as [|[llid body] rest] eqn:Q; [cbn; rewrite Q; repeat split; auto using incl_refl|].
+    destruct (llid =? GenLL.ll_control_pdu_code).
+    + destruct (tx_buffer_available s); [|cbn; rewrite Q; repeat split; auto using incl_refl].
+      pose proof (hlc_cases c s body) as L. cbn zeta in L.
+      destruct (handle_ll_control c s body) as [[s1 it1] r1]. cbn [fst snd] in L.
+      destruct L as (L1 & L2 & L3 & L4 & L6 & L5).
+      set (s2 := upd_bf s1 (fun b => set_rxq b rest)).
+      assert (K2 : st s2 = st s1 /\ cs s2 = cs s1 /\ deferred s2 = deferred s1 /\ def_instant s2 = def_instant s1 /\ tm s2 = tm s1
+                   /\ chan s2 = chan s1 /\ rxq (bf s2) = rest) by (subst s2; repeat split; reflexivity).
+      destruct K2 as (K1 & K2 & K3 & K4 & K5 & K6 & K7).
+      destruct r1.
+      * specialize (IH s2). cbn zeta in IH.
+        destruct (handle_received_data fuel c s2) as [[s3 it3] r3]. cbn [fst snd] in IH |- *.
+        destruct IH as (I1 & I2 & I3 & I4 & I6 & I5). rewrite K7 in I6, I5.
+        split; [congruence|]. split; [congruence|]. split; [congruence|]. split; [congruence|].
+        split; [apply incl_tl; exact I6|].
+        destruct L5 as [(La & Lb)|[La|(La & Lb & Lc & Ld)]].
+        -- destruct I5 as [(Ia & Ib)|[Ia|(Ib & Ic & b & Id & Ie & l & If)]].
+           ++ left. split; congruence.
+           ++ right. left. exact Ia.
+           ++ right. right. split; [reflexivity|]. split; [rewrite <- L2, <- K2; exact Ic|].
+              exists b. split; [exact Id|]. split; [exact Ie|]. exists l. right. exact If.
+        -- discriminate.
+        -- destruct I5 as [(Ia & Ib)|[Ia|(Ib & Ic & Id)]].
+           ++ right. right. split; [reflexivity|]. split.
+              ** rewrite Ib, K4. exact Lc.
+              ** exists body. split; [congruence|]. split; [destruct Ld as [i Ld]; exists i; congruence|].
+                 exists llid. left. reflexivity.
+           ++ right. left. exact Ia.
+           ++ congruence.
+      * cbn [fst snd]. split; [congruence|]. split; [congruence|]. split; [congruence|]. split; [congruence|].
+        split; [rewrite K7; apply incl_tl, incl_refl|]. right. left. reflexivity.
+    + destruct ((llid =? GenLL.lld_data_pdu_code) && _); [|cbn; rewrite Q; repeat split; auto using incl_refl].
+      match goal with |- context [match ?x with L2Drop => _ | L2Reply _ => _ end] => destruct x as [|rp] end.
+      * set (s2 := upd_bf s (fun b => set_rxq b rest)).
+        assert (K2 : st s2 = st s /\ cs s2 = cs s /\ deferred s2 = deferred s /\ def_instant s2 = def_instant s /\ tm s2 = tm s
+                     /\ chan s2 = chan s /\ rxq (bf s2) = rest) by (subst s2; repeat split; reflexivity).
+        destruct K2 as (K1 & K2 & K3 & K4 & K5 & K6 & K7).
+        specialize (IH s2). cbn zeta in IH.
+        destruct (handle_received_data fuel c s2) as [[s3 it3] r3]. cbn [fst snd] in IH |- *.
+        destruct IH as (I1 & I2 & I3 & I4 & I6 & I5). rewrite K7 in I6, I5.
+        split; [congruence|]. split; [congruence|]. split; [congruence|]. split; [congruence|].
+        split; [apply incl_tl; exact I6|].
+        destruct I5 as [(Ia & Ib)|[Ia|(Ib & Ic & b & Id & Ie & l & If)]].
+        -- left. split; congruence.
+        -- right. left. exact Ia.
+        -- right. right. split; [reflexivity|]. split; [rewrite <- K2; exact Ic|].
+           exists b. split; [exact Id|]. split; [exact Ie|]. exists l. right. exact If.
+      * destruct (tx_buffer_available s); [|cbn; rewrite Q; repeat split; auto using incl_refl].
+        set (s1 := match rp with Some f => commit s (GenLL.lld_data_pdu_code, f) | None => s end).
+        assert (K1' : keep s s1) by (subst s1; destruct rp; [apply keep_commit|apply keep_refl]).
+        set (s2 := upd_bf s1 (fun b => set_rxq b rest)).
+        assert (K2 : st s2 = st s /\ cs s2 = cs s /\ deferred s2 = deferred s /\ def_instant s2 = def_instant s /\ tm s2 = tm s
+                     /\ chan s2 = chan s /\ rxq (bf s2) = rest).
+        { destruct K1' as (A1 & A2 & A3 & A4 & A5 & A6 & A7). subst s2. repeat split; cbn [st cs deferred def_instant tm chan upd_bf set_bf]; auto. }
+        destruct K2 as (K1 & K2 & K3 & K4 & K5 & K6 & K7).
+        specialize (IH s2). cbn zeta in IH.
+        destruct (handle_received_data fuel c s2) as [[s3 it3] r3]. cbn [fst snd] in IH |- *.
+        destruct IH as (I1 & I2 & I3 & I4 & I6 & I5). rewrite K7 in I6, I5.
+        split; [congruence|]. split; [congruence|]. split; [congruence|]. split; [congruence|].
+        split; [apply incl_tl; exact I6|].
+        destruct I5 as [(Ia & Ib)|[Ia|(Ib & Ic & b & Id & Ie & l & If)]].
+        -- left. split; congruence.
+        -- right. left. exact Ia.
+        -- right. right. split; [reflexivity|]. split; [rewrite <- K2; exact Ic|].
+           exists b. split; [exact Id|]. split; [exact Ie|]. exists l. right. exact If.
+Qed.
+
+(* while a procedure waits, received PDUs wait: nothing is looked at *)
+Lemma hrd_blocked c fuel s b : deferred s = Some b -> handle_received_data (S fuel) c s = (s, [], GoAhead).
+Proof. intros D. cbn [handle_received_data]. rewrite D. reflexivity. Qed.
+
+(* ========================================================================================== arithmetic (small contexts) *)
+Lemma dist_formula e i : e < 65536 -> i < 65536 ->
+  (if e <? i then i - e else u16 (i + 65536 - e)) = u16 (i + 65536 - e).
+Proof. intros He Hi. unfold u16. destruct (e <? i) eqn:E; [|reflexivity]. nlia. Qed.
+
+Lemma dist_after e i l : e < 65536 -> i < 65536 -> l <= u16 (i + 65536 - e) ->
+  u16 (i + 65536 - u16 (e + l)) = u16 (i + 65536 - e) - l.
+Proof. unfold u16. intros He Hi Hl. nlia. Qed.
+
+Lemma dist_zero_eq e i : e < 65536 -> i < 65536 -> (u16 (i + 65536 - e) = 0 <-> i = e).
+Proof. unfold u16. intros He Hi. split; intros H; nlia. Qed.
+
+Lemma dist_back e i k : e < 65536 -> i < 65536 -> u16 (i + 65536 - e) + k < 65536 ->
+  u16 (i + 65536 - u16 (e + 65536 - k)) = u16 (i + 65536 - e) + k.
+Proof. unfold u16. intros He Hi Hk. nlia. Qed.
+
+Lemma u16_lt x : u16 x < 65536.
+Proof. unfold u16. apply N.mod_lt. discriminate. Qed.
+
+(* ========================================================================================== planning *)
+Definition dist (s : lstate_t) : N := u16 (def_instant s + 65536 - evc (cs s)).
+
+Lemma plan_spec c s evts s' :
+  plan_next_connection_event c s evts = Some s' ->
+  evc (cs s) < 65536 -> latency (tm s) <= 499 ->
+  exists l t ll,
+    s' = set_cs s (mk_cstate ((ch_idx (cs s) + l) mod 37) (u16 (evc (cs s) + l)) t ll)
+    /\ 1 <= l <= latency (tm s) + 1
+    /\ (disarmable c = true -> ll = l) /\ (disarmable c = false -> ll = last_lat (cs s))
+    /\ (forall b, deferred s = Some b -> def_instant s < 65536 -> 1 <= dist s -> l <= dist s).
+Proof.
+  unfold plan_next_connection_event. intros H He Hl.
+  match type of H with context [u16 ((if ?x then 0 else _) + 1)] => set (listen := x) in H end.
+  set (l0 := u16 ((if listen then 0 else latency (tm s)) + 1)) in H.
+  assert (H0 : 1 <= l0 <= latency (tm s) + 1).
+  { subst l0. clear H. unfold u16. destruct listen; rewrite N.mod_small; lia. }
+  clearbody l0. clear listen.
+  match type of H with context [dt_mul _ ?x] => set (l := x) in H end.
+  destruct (dt_mul _ l) as [t|]; cbn [obind] in H; [|discriminate].
+  destruct (disarmable c && (l =? 0)) eqn:Z; [discriminate|].
+  inversion H as [H']. clear H H'.
+  exists l, t, (if disarmable c then l else last_lat (cs s)).
+  split; [reflexivity|]. split.
+  - subst l. destruct (deferred s) as [b|] eqn:D; [|exact H0].
+    destruct (0 <? _) eqn:P; [|exact H0]. split; [|lia]. apply N.min_glb; lia.
+  - split; [intros ->; reflexivity|]. split; [intros ->; reflexivity|].
+    intros b D Hi H1. subst l. rewrite D. rewrite (dist_formula _ _ He Hi). fold (dist s).
+    replace (0 <? dist s) with true by lia. apply N.le_min_r.
+Qed.
+
+(* ========================================================================================== the instant *)
+(* what applying the deferred procedure [b] does to the state; [it] = what it tells the radio *)
+Definition applied_map (s s' : lstate_t) (b : list N) : Prop :=
+  chan s' = fst (ChanMapModel.reset_impl (chan s) (slice b 1 5) (ChanMapModel.hop_ (chan s))) /\ tm s' = tm s /\ st s' = st s.
+Definition applied_update (s s' : lstate_t) (b : list N) : Prop :=
+  tm s' = fst (parse_update b) /\ chan s' = chan s /\ st s' = ConnChanged.
+
+Lemma setup_next_spec s s' it :
+  setup_next_connection_event s = Some (s', it) ->
+  s' = set_pending_event s true /\ exists ws we, it = [ICe (data_channel s) ws we (interval (tm s))].
+Proof.
+  unfold setup_next_connection_event. intros H.
+  destruct (if negb (tw_size (tm s) =? 0) then _ else _) as [[ws we]|]; cbn [obind] in H; [|discriminate].
+  inversion H. split; [reflexivity|]. repeat eexists.
+Qed.
+
+(* not (yet) the instant: nothing is applied *)
+Lemma pending_not_yet c s s' it :
+  pending_then_setup c s = Some (s', it) ->
+  (deferred s = None \/ def_instant s <> evc (cs s)) ->
+  s' = set_pending_event s true /\ exists ws we, it = [ICe (data_channel s) ws we (interval (tm s))].
+Proof.
+  unfold pending_then_setup, handle_pending_ll_control. intros H Hn.
+  assert (E : (match deferred s with
+               | Some body => if def_instant s =? evc (cs s) then None else Some (s, @nil item, GoAhead)
+               | None => Some (s, [], GoAhead) end) = Some (s, [], GoAhead)).
+  { destruct (deferred s); [|reflexivity]. destruct Hn as [Hn|Hn]; [discriminate|].
+    destruct (def_instant s =? evc (cs s)) eqn:E; [lia|reflexivity]. }
+  destruct (deferred s) as [b|] eqn:D.
+  - destruct Hn as [Hn|Hn]; [discriminate|]. replace (def_instant s =? evc (cs s)) with false in H by lia.
+    cbn [obind] in H. destruct (setup_next_connection_event s) as [[s2 it2]|] eqn:E2; cbn [obind] in H; [|discriminate].
+    inversion H; subst. cbn [app]. exact (setup_next_spec _ _ _ E2).
+  - cbn [obind] in H. destruct (setup_next_connection_event s) as [[s2 it2]|] eqn:E2; cbn [obind] in H; [|discriminate].
+    inversion H; subst. cbn [app]. exact (setup_next_spec _ _ _ E2).
+Qed.
+
+Definition after_apply (c : cfg) (s : lstate_t) : lstate_t :=
+  upd_cs (set_deferred s None) (fun x => if disarmable c then set_last_lat x 1 else x).
+
+Lemma keep_push_event' c s e : keep s (push_event c s e). Proof. apply keep_push_event. Qed.
+
+(* the planned event is the instant: the procedure is applied before the event is handed to the radio *)
+Lemma pending_at_instant c s b s' it :
+  pending_then_setup c s = Some (s', it) ->
+  deferred s = Some b -> def_instant s = evc (cs s) ->
+  (exists sx, s' = fst (force_disconnect c sx) /\ cs sx = cs (after_apply c s) /\ rxq (bf sx) = rxq (bf s))
+  \/ (deferred s' = None /\ cs s' = cs (after_apply c s) /\ rxq (bf s') = rxq (bf s)
+      /\ (exists ws we, In (ICe (data_channel s') ws we (interval (tm s'))) it)
+      /\ (   (byte b 0 = GenLL.LL_CHANNEL_MAP_REQ /\ applied_map s s' b /\ forall x y, ~ In (IPhy x y) it)
+          \/ (byte b 0 <> GenLL.LL_CHANNEL_MAP_REQ /\ byte b 0 = GenLL.LL_CONNECTION_UPDATE_IND /\ applied_update s s' b
+              /\ snd (parse_update b) = Some true /\ forall x y, ~ In (IPhy x y) it)
+          \/ (byte b 0 <> GenLL.LL_CHANNEL_MAP_REQ /\ byte b 0 <> GenLL.LL_CONNECTION_UPDATE_IND
+              /\ tm s' = tm s /\ chan s' = chan s /\ st s' = st s /\ In (IPhy (byte b 1) (byte b 2)) it))).
+Proof.
+  unfold pending_then_setup, handle_pending_ll_control. intros H D Hi.
+  rewrite D in H. replace (def_instant s =? evc (cs s)) with true in H by lia.
+  fold (after_apply c s) in H. set (s0 := after_apply c s) in *.
+  assert (K0 : st s0 = st s /\ tm s0 = tm s /\ chan s0 = chan s /\ deferred s0 = None /\ rxq (bf s0) = rxq (bf s)) by (subst s0; repeat split; reflexivity).
+  destruct K0 as (K1 & K2 & K3 & K4 & K5). clearbody s0.
+  destruct (byte b 0 =? GenLL.LL_CHANNEL_MAP_REQ) eqn:O1.
+  - (* channel map *)
+    destruct (ChanMapModel.reset_impl (chan s0) (slice b 1 5) (ChanMapModel.hop_ (chan s0))) as [ch o] eqn:R.
+    cbn [obind] in H.
+    destruct (setup_next_connection_event (set_chan s0 ch)) as [[s2 it2]|] eqn:E2; cbn [obind] in H; [|discriminate].
+    inversion H; subst s' it. clear H. cbn [app].
+    destruct (setup_next_spec _ _ _ E2) as [-> (ws & we & ->)].
+    right. split; [exact K4|]. split; [reflexivity|]. split; [exact K5|]. split; [exists ws, we; left; reflexivity|].
+    left. split; [lia|]. split.
+    + unfold applied_map. cbn [chan tm st set_pending_event set_chan]. rewrite <- K3, R. auto.
+    + intros x y [F|[]]. discriminate.
+  - destruct (byte b 0 =? GenLL.LL_CONNECTION_UPDATE_IND) eqn:O2.
+    + (* connection update *)
+      destruct (parse_update b) as [t ok] eqn:P.
+      destruct ok as [[|]|]; cbn [obind] in H; [| |discriminate].
+      * match type of H with context [push_event c ?x ?y] => set (s3 := push_event c x y) in H end.
+        destruct (setup_next_connection_event s3) as [[s4 it4]|] eqn:E4; cbn [obind] in H; [|discriminate].
+        inversion H; subst s' it. clear H. cbn [app].
+        destruct (setup_next_spec _ _ _ E4) as [-> (ws & we & ->)].
+        assert (K : keep (set_st (set_tm (set_proc_timeout s0 0) t) ConnChanged) s3) by (subst s3; apply keep_push_event).
+        destruct K as (Q1 & Q2 & Q3 & Q4 & Q5 & Q6 & Q7). cbn [st cs deferred def_instant tm chan set_st set_tm set_proc_timeout] in Q1, Q2, Q3, Q4, Q5, Q6.
+        clearbody s3.
+        right. split; [cbn [deferred set_pending_event]; congruence|]. split; [cbn [cs set_pending_event]; exact Q2|].
+        split; [cbn [bf set_pending_event]; cbn [bf set_st set_tm set_proc_timeout] in Q7; congruence|].
+        split; [exists ws, we; left; reflexivity|].
+        right. left. split; [lia|]. split; [lia|]. split.
+        -- unfold applied_update. rewrite P. cbn [tm chan st set_pending_event fst]. repeat split; congruence.
+        -- split; [reflexivity|]. intros x y [F|[]]. discriminate.
+      * (* parameters refused: the link ends *)
+        destruct (force_disconnect c (set_tm (set_proc_timeout s0 0) t)) as [s5 it5] eqn:F.
+        inversion H; subst s' it. clear H. left.
+        exists (set_tm (set_proc_timeout s0 0) t). rewrite F. split; [reflexivity|]. split; [reflexivity|exact K5].
+    + (* PHY update *)
+      cbn [obind] in H.
+      match type of H with context [push_event c ?x ?y] => set (s3 := push_event c x y) in H end.
+      destruct (setup_next_connection_event s3) as [[s4 it4]|] eqn:E4; cbn [obind] in H; [|discriminate].
+      inversion H; subst s' it. clear H.
+      destruct (setup_next_spec _ _ _ E4) as [-> (ws & we & ->)].
+      assert (K : keep s0 s3) by (subst s3; apply keep_push_event).
+      destruct K as (Q1 & Q2 & Q3 & Q4 & Q5 & Q6 & Q7). clearbody s3.
+      right. split; [cbn [deferred set_pending_event]; congruence|]. split; [cbn [cs set_pending_event]; exact Q2|].
+      split; [cbn [bf set_pending_event]; congruence|].
+      split; [exists ws, we; right; left; reflexivity|].
+      right. right. split; [lia|]. split; [lia|].
+      cbn [tm chan st set_pending_event]. repeat split; try congruence. left. reflexivity.
+Qed.
+
+(* ========================================================================================== well formed input *)
+Definition bytes_ok (b : list N) : Prop := Forall (fun x => x < 256) b.
+Definition pdus_ok (l : list pdu) : Prop := Forall (fun p => bytes_ok (snd p)) l.
+Definition op_ok (o : lop) : Prop := match o with Ev _ pdus => pdus_ok pdus | _ => True end.
+
+Lemma byte_lt b i : bytes_ok b -> byte b i < 256.
+Proof.
+  unfold byte, bytes_ok. intros H. destruct (nth_in_or_default i b 0) as [Hin|E]; [|rewrite E; lia].
+  rewrite Forall_forall in H. apply H. exact Hin.
+Qed.
+Lemma rd16_lt b i : bytes_ok b -> rd16 b i < 65536.
+Proof. intros H. unfold rd16. pose proof (byte_lt b i H). pose proof (byte_lt b (S i) H). lia. Qed.
+
+(* ========================================================================================== what "applied" means *)
+Definition applied (b : list N) (s s' : lstate_t) (it : list item) : Prop :=
+  rxq (bf s') = rxq (bf s) /\
+  (exists ws we, In (ICe (data_channel s') ws we (interval (tm s'))) it) /\
+  (   (byte b 0 = GenLL.LL_CHANNEL_MAP_REQ /\ applied_map s s' b /\ forall x y, ~ In (IPhy x y) it)
+   \/ (byte b 0 <> GenLL.LL_CHANNEL_MAP_REQ /\ byte b 0 = GenLL.LL_CONNECTION_UPDATE_IND /\ applied_update s s' b
+       /\ snd (parse_update b) = Some true /\ forall x y, ~ In (IPhy x y) it)
+   \/ (byte b 0 <> GenLL.LL_CHANNEL_MAP_REQ /\ byte b 0 <> GenLL.LL_CONNECTION_UPDATE_IND
+       /\ tm s' = tm s /\ chan s' = chan s /\ st s' = st s /\ In (IPhy (byte b 1) (byte b 2)) it)).
+
+(* the planned event is moved [l] events ahead, 1 <= l <= distance of the waiting procedure: it is applied iff l = distance *)
+Lemma advance_pending c s l t ll b s8 it8 :
+  pending_then_setup c (set_cs s (mk_cstate ((ch_idx (cs s) + l) mod 37) (u16 (evc (cs s) + l)) t ll)) = Some (s8, it8) ->
+  deferred s = Some b -> evc (cs s) < 65536 -> def_instant s < 65536 -> 1 <= l <= dist s ->
+  (exists sx, s8 = fst (force_disconnect c sx) /\ evc (cs sx) < 65536 /\ rxq (bf sx) = rxq (bf s))
+  \/ (l < dist s /\ s8 = set_pending_event (set_cs s (mk_cstate ((ch_idx (cs s) + l) mod 37) (u16 (evc (cs s) + l)) t ll)) true
+      /\ dist s8 = dist s - l /\ forall x y, ~ In (IPhy x y) it8)
+  \/ (l = dist s /\ deferred s8 = None /\ evc (cs s8) = def_instant s /\ last_lat (cs s8) = (if disarmable c then 1 else ll)
+      /\ applied b s s8 it8).
+Proof.
+  set (s7 := set_cs s _). intros H D He Hi Hl.
+  assert (D7 : dist s7 = dist s - l).
+  { unfold dist. subst s7. cbn [def_instant cs evc set_cs]. apply dist_after; auto. exact (proj2 Hl). }
+  destruct (N.eq_dec l (dist s)) as [E|E].
+  - (* the instant *)
+    assert (Hi7 : def_instant s7 = evc (cs s7)).
+    { apply (dist_zero_eq (evc (cs s7)) (def_instant s7)); [subst s7; cbn [cs evc set_cs]; apply u16_lt|exact Hi|].
+      fold (dist s7). lia. }
+    destruct (pending_at_instant c s7 b s8 it8 H D Hi7) as [(sx & X1 & X2 & X3)|(A1 & A2 & A5 & A3 & A4)].
+    { left. exists sx. split; [exact X1|]. split; [|exact X3].
+      rewrite X2. unfold after_apply. subst s7. destruct (disarmable c); cbn [cs evc upd_cs set_cs set_last_lat set_deferred]; apply u16_lt. }
+    right. right. split; [exact E|]. split; [exact A1|]. split.
+    + rewrite A2. unfold after_apply. destruct (disarmable c); cbn [cs evc upd_cs set_cs set_last_lat set_deferred]; symmetry; exact Hi7.
+    + split; [rewrite A2; unfold after_apply; destruct (disarmable c); reflexivity|].
+      split; [exact A5|]. split; [exact A3|]. exact A4.
+  - right. left. split; [lia|].
+    assert (Hn : def_instant s7 <> evc (cs s7)).
+    { intros F. apply (dist_zero_eq (evc (cs s7)) (def_instant s7)) in F; [|subst s7; cbn [cs evc set_cs]; apply u16_lt|exact Hi].
+      fold (dist s7) in F. lia. }
+    destruct (pending_not_yet c s7 s8 it8 H (or_intror Hn)) as [-> (ws & we & ->)].
+    split; [reflexivity|]. split; [exact D7|]. intros x y [F|[]]. discriminate.
+Qed.
+
+(* ========================================================================================== the invariant *)
+Record pend_ok (c : cfg) (s : lstate_t) : Prop := mk_pend_ok {
+  pend_def : def_instant s < 65536;
+  pend_lo : 1 <= dist s;
+  pend_hi : dist s <= 32766;
+  pend_ll : disarmable c = true -> dist s + last_lat (cs s) <= 32767 }.
+
+Definition Inv (c : cfg) (s : lstate_t) : Prop :=
+  evc (cs s) < 65536
+  /\ (in_connection s = false -> deferred s = None)
+  /\ (in_connection s = true -> latency (tm s) <= 499)
+  /\ (forall b, deferred s = Some b -> pend_ok c s)
+  /\ pdus_ok (rxq (bf s)).
+
+Lemma in_connection_st s s' : st s' = st s -> in_connection s' = in_connection s.
+Proof. unfold in_connection. intros ->. reflexivity. Qed.
+
+Lemma Inv_keep c s s' : keep s s' -> Inv c s -> Inv c s'.
+Proof.
+  intros (K1 & K2 & K3 & K4 & K5 & K6 & K7) (I1 & I2 & I3 & I4 & I5). unfold Inv.
+  rewrite (in_connection_st _ _ K1), K2, K3, K5, K7.
+  split; [exact I1|]. split; [exact I2|]. split; [exact I3|]. split; [|exact I5].
+  intros b D. destruct (I4 b D) as [P1 P2 P3 P4]. split; unfold dist in *; rewrite ?K4, ?K2; auto.
+Qed.
+
+Lemma reset_encryption_keep c s : keep s (fst (reset_encryption c s)).
+Proof. unfold reset_encryption. destruct (c_enc c); cbn [fst]; kp. Qed.
+
+Lemma force_disconnect_frame c s :
+  let s' := fst (force_disconnect c s) in
+  st s' = Advertising /\ deferred s' = None /\ cs s' = cs s /\ rxq (bf s') = rxq (bf s).
+Proof.
+  unfold force_disconnect. pose proof (reset_encryption_keep c s) as K.
+  destruct (reset_encryption c s) as [s1 i1]. cbn [fst] in K.
+  set (s2 := match st s1 with Connecting => _ | _ => _ end).
+  assert (K2 : keep s1 s2) by (subst s2; destruct (st s1); apply keep_push_event).
+  unfold start_advertising_impl, handle_start_advertising. cbn [fst st deferred cs bf set_deferred set_st].
+  destruct K as (A1 & A2 & A3 & A4 & A5 & A6 & A7). destruct K2 as (B1 & B2 & B3 & B4 & B5 & B6 & B7).
+  repeat split; congruence.
+Qed.
+
+Lemma Inv_advertising c s : st s = Advertising -> deferred s = None -> evc (cs s) < 65536 -> pdus_ok (rxq (bf s)) -> Inv c s.
+Proof.
+  intros S D E R. unfold Inv. split; [exact E|]. split; [intros _; exact D|]. split.
+  - unfold in_connection. rewrite S. discriminate.
+  - split; [intros b F; congruence|exact R].
+Qed.
+
+Lemma Inv_force_disconnect c s : evc (cs s) < 65536 -> pdus_ok (rxq (bf s)) -> Inv c (fst (force_disconnect c s)).
+Proof.
+  intros E R. destruct (force_disconnect_frame c s) as (F1 & F2 & F3 & F4).
+  apply Inv_advertising; auto; congruence.
+Qed.
+
+(* ========================================================================================== more frames *)
+Lemma keep_tpsp c s : keep s (fst (transmit_pending_security_pdus c s)).
+Proof.
+  unfold transmit_pending_security_pdus. destruct (c_enc c && _ && _); [|apply keep_refl].
+  destruct (has_key (sc s)); cbn [fst]; (eapply keep_trans; [|apply keep_commit_ctrl]); kp.
+Qed.
+
+Lemma keep_tpcp c s : keep s (transmit_pending_control_pdus c s).
+Proof.
+  unfold transmit_pending_control_pdus.
+  repeat match goal with |- context [if ?b then _ else _] => destruct b end;
+    try apply keep_refl; (eapply keep_trans; [|apply keep_commit_ctrl]); kp.
+Qed.
+
+Lemma keep_send_control s : keep s (send_control_pdus s).
+Proof.
+  unfold send_control_pdus. destruct (_ && _ && _); [|apply keep_refl].
+  eapply keep_trans; [apply (keep_commit_ctrl s [GenLL.LL_TERMINATE_IND; disc_reason s])|]. kp.
+Qed.
+
+Lemma keep_epilogue c s9 it : keep s9 (fst (end_event_epilogue c s9 it)).
+Proof.
+  unfold end_event_epilogue.
+  set (s10 := match st s9 with Connected | Connecting => transmit_pending_control_pdus c s9 | _ => s9 end).
+  assert (K : keep s9 s10) by (subst s10; destruct (st s9); try apply keep_refl; apply keep_tpcp).
+  unfold flush_events. cbn [fst]. eapply keep_trans; [exact K|]. kp.
+Qed.
+
+Lemma instant_not_passed i e : instant_passed i e = false -> 1 <= u16 (i + 65536 - e) <= 32766.
+Proof. unfold instant_passed. cbn zeta. intros H. lia. Qed.
+
+Lemma check_timing_latency t : check_timing t = Some true -> latency t <= 499.
+Proof.
+  unfold check_timing. intros H.
+  destruct (latency t <=? 499) eqn:L; [lia|]. cbn [andb] in H. discriminate.
+Qed.
+
+Lemma parse_update_latency b t : parse_update b = (t, Some true) -> latency t <= 499.
+Proof.
+  unfold parse_update. cbn zeta. intros H. injection H as Ht Hok. subst t.
+  match type of Hok with (if ?x then _ else _) = _ => destruct x; [|discriminate] end.
+  apply check_timing_latency. exact Hok.
+Qed.
+
+Lemma parse_connect_latency b t : parse_connect b = (t, Some true) -> latency t <= 499.
+Proof.
+  unfold parse_connect. cbn zeta. intros H. injection H as Ht Hok. subst t.
+  match type of Hok with (if ?x then _ else _) = _ => destruct x; [|discriminate] end.
+  apply check_timing_latency. exact Hok.
+Qed.
+
+Definition no_phy (it : list item) : Prop := forall x y, ~ In (IPhy x y) it.
+
+(* The four things the end of a connection event / a missed event can mean for a waiting procedure.
+   [lrel l s s8] relates the recorded skip to the step width l. *)
+Definition ended (c : cfg) (s s8 : lstate_t) : Prop :=
+  exists sx, s8 = fst (force_disconnect c sx) /\ evc (cs sx) < 65536 /\ rxq (bf sx) = rxq (bf s).
+Definition idle_step (s s8 : lstate_t) : Prop :=
+  deferred s = None /\ deferred s8 = None /\ st s8 = st s /\ tm s8 = tm s /\ chan s8 = chan s /\ rxq (bf s8) = rxq (bf s)
+  /\ evc (cs s8) < 65536.
+Definition waiting_step (b : list N) (l : N) (s s8 : lstate_t) (it8 : list item) : Prop :=
+  deferred s = Some b /\ 1 <= l /\ l < dist s /\ deferred s8 = Some b /\ def_instant s8 = def_instant s /\ dist s8 = dist s - l
+  /\ st s8 = st s /\ tm s8 = tm s /\ chan s8 = chan s /\ rxq (bf s8) = rxq (bf s) /\ evc (cs s8) < 65536 /\ no_phy it8.
+Definition applied_step (c : cfg) (b : list N) (s s8 : lstate_t) (it8 : list item) : Prop :=
+  deferred s = Some b /\ deferred s8 = None /\ evc (cs s8) = def_instant s /\ (disarmable c = true -> last_lat (cs s8) = 1)
+  /\ applied b s s8 it8.
+
+Lemma applied_keep b s s6 s8 pre it : keep s s6 -> no_phy pre -> applied b s6 s8 it -> applied b s s8 (pre ++ it).
+Proof.
+  intros (K1 & K2 & K3 & K4 & K5 & K6 & K7) Hp (A0 & (ws & we & A1) & A2).
+  split; [congruence|]. split; [exists ws, we; apply in_or_app; right; exact A1|].
+  assert (NP : no_phy it -> no_phy (pre ++ it)).
+  { intros H x y F. apply in_app_or in F. destruct F as [F|F]; [exact (Hp x y F)|exact (H x y F)]. }
+  destruct A2 as [(B1 & (B2 & B3 & B4) & B5)|[(B1 & B2 & (B3 & B4 & B5) & B6 & B7)|(B1 & B2 & B3 & B4 & B5 & B6)]].
+  - left. split; [exact B1|]. split; [|exact (NP B5)]. unfold applied_map. rewrite <- K6, <- K5, <- K1. auto.
+  - right. left. split; [exact B1|]. split; [exact B2|]. split; [|split; [exact B6|exact (NP B7)]].
+    unfold applied_update. rewrite <- K6. auto.
+  - right. right. split; [exact B1|]. split; [exact B2|]. repeat split; try congruence. apply in_or_app. right. exact B6.
+Qed.
+
+Lemma tpsp_items c s : no_phy (snd (transmit_pending_security_pdus c s)).
+Proof.
+  unfold transmit_pending_security_pdus, no_phy. intros x y.
+  destruct (c_enc c && _ && _); [|cbn; tauto].
+  destruct (has_key (sc s)); cbn [snd]; intros F.
+  - destruct F as [F|[]]; discriminate.
+  - destruct F.
+Qed.
+
+(* ---- the end of a connection event, after the receive queue was looked at *)
+Lemma continue_cases c s evts s8 it8 :
+  end_event_continue c s evts = Some (s8, it8) ->
+  evc (cs s) < 65536 -> latency (tm s) <= 499 ->
+  (forall b, deferred s = Some b -> def_instant s < 65536 /\ 1 <= dist s) ->
+  ended c s s8 \/ idle_step s s8
+  \/ (exists b l, waiting_step b l s s8 it8 /\ (disarmable c = true -> last_lat (cs s8) = l))
+  \/ (exists b, applied_step c b s s8 it8).
+Proof.
+  unfold end_event_continue. intros H He Hl Hp.
+  destruct (procedure_timed_out s).
+  { unfold force_disconnect_reason in H. inversion H as [H1]. left. exists (set_disc_reason s GenLL.connection_ll_response_timeout).
+    rewrite H1. repeat split; auto. }
+  set (s5 := if negb (proc_timeout s =? 0) then _ else s) in H.
+  assert (K5 : keep s s5) by (subst s5; destruct (negb _); [kp|apply keep_refl]).
+  pose proof (keep_tpsp c s5) as K6. pose proof (tpsp_items c s5) as P6.
+  destruct (transmit_pending_security_pdus c s5) as [s6 it6]. cbn [fst snd] in K6, P6.
+  assert (K : keep s s6) by (eapply keep_trans; eassumption). clear K5 K6. clearbody s5.
+  destruct K as (K1 & K2 & K3 & K4 & K5 & K6 & K7).
+  match type of H with context [plan_next_connection_event c s6 ?e] => destruct (plan_next_connection_event c s6 e) as [s7|] eqn:E7 end;
+    cbn [obind] in H; [|discriminate].
+  destruct (pending_then_setup c s7) as [[s8' it8']|] eqn:E8; cbn [obind] in H; [|discriminate].
+  inversion H; subst s8' it8. clear H.
+  destruct (plan_spec c s6 _ s7 E7) as (l & t & ll & -> & Hl1 & Hd1 & Hd2 & Hl2); [congruence|congruence|].
+  destruct (deferred s) as [b|] eqn:D.
+  - destruct (Hp b eq_refl) as (P1 & P2).
+    assert (D6 : deferred s6 = Some b) by congruence.
+    assert (X6 : dist s6 = dist s) by (unfold dist; congruence).
+    assert (L6 : 1 <= l <= dist s6) by (split; [lia|apply (Hl2 b D6); [congruence|lia]]).
+    destruct (advance_pending c s6 l t ll b s8 it8' E8 D6) as [(sx & X1 & X2 & X3)|[(A1 & A2 & A3 & A4)|(A1 & A2 & A3 & A4 & A5)]];
+      [congruence|congruence|exact L6| | |].
+    + left. exists sx. repeat split; auto. congruence.
+    + right. right. left. exists b, l. split.
+      * unfold waiting_step. split; [first [exact D|reflexivity]|]. split; [lia|]. split; [lia|].
+        split; [subst s8; cbn [deferred set_pending_event set_cs]; exact D6|].
+        split; [subst s8; cbn [def_instant set_pending_event set_cs]; congruence|].
+        split; [rewrite A3; congruence|].
+        subst s8. cbn [st tm chan bf cs evc set_pending_event set_cs].
+        split; [congruence|]. split; [congruence|]. split; [congruence|]. split; [congruence|]. split; [apply u16_lt|].
+        intros x y F. apply in_app_or in F. destruct F as [F|F]; [exact (P6 x y F)|exact (A4 x y F)].
+      * intros Hd. subst s8. cbn [cs last_lat set_pending_event set_cs]. exact (Hd1 Hd).
+    + right. right. right. exists b. unfold applied_step.
+      split; [first [exact D|reflexivity]|]. split; [exact A2|]. split; [congruence|]. split; [intros Hd; rewrite A4, Hd; reflexivity|].
+      apply applied_keep with s6; auto. repeat split; auto; congruence.
+  - assert (D7 : deferred (set_cs s6 (mk_cstate ((ch_idx (cs s6) + l) mod 37) (u16 (evc (cs s6) + l)) t ll)) = None)
+      by (cbn [deferred set_cs]; congruence).
+    destruct (pending_not_yet c _ s8 it8' E8 (or_introl D7)) as [-> _].
+    right. left. unfold idle_step. cbn [deferred st tm chan bf cs evc set_pending_event set_cs].
+    repeat split; try congruence. apply u16_lt.
+Qed.
+
+(* ---- a missed event *)
+Lemma missed_cases c s s1 s8 it8 :
+  plan_after_timeout s = Some s1 -> pending_then_setup c s1 = Some (s8, it8) ->
+  evc (cs s) < 65536 ->
+  (forall b, deferred s = Some b -> def_instant s < 65536 /\ 1 <= dist s) ->
+  ended c s s8 \/ idle_step s s8
+  \/ (exists b, waiting_step b 1 s s8 it8 /\ last_lat (cs s8) = last_lat (cs s))
+  \/ (exists b, applied_step c b s s8 it8).
+Proof.
+  unfold plan_after_timeout. intros H1 H8 He Hp.
+  destruct (dt_add _ _) as [t|]; cbn [obind] in H1; [|discriminate]. inversion H1 as [H1']. clear H1.
+  unfold upd_cs in H1'. subst s1.
+  destruct (deferred s) as [b|] eqn:D.
+  - destruct (Hp b eq_refl) as (P1 & P2).
+    destruct (advance_pending c s 1 t (last_lat (cs s)) b s8 it8 H8 D He P1) as [(sx & X1 & X2 & X3)|[(A1 & A2 & A3 & A4)|(A1 & A2 & A3 & A4 & A5)]];
+      [lia| | |].
+    + left. exists sx. repeat split; auto.
+    + right. right. left. exists b. split.
+      * unfold waiting_step. split; [first [exact D|reflexivity]|]. split; [lia|]. split; [lia|].
+        split; [subst s8; cbn [deferred set_pending_event set_cs]; exact D|].
+        split; [subst s8; reflexivity|].
+        split; [exact A3|].
+        subst s8. cbn [st tm chan bf cs evc set_pending_event set_cs].
+        split; [reflexivity|]. split; [reflexivity|]. split; [reflexivity|]. split; [reflexivity|]. split; [apply u16_lt|exact A4].
+      * subst s8. reflexivity.
+    + right. right. right. exists b. unfold applied_step.
+      split; [first [exact D|reflexivity]|]. split; [exact A2|]. split; [exact A3|]. split; [intros Hd; rewrite A4, Hd; reflexivity|exact A5].
+  - assert (D7 : deferred (set_cs s (mk_cstate ((ch_idx (cs s) + 1) mod 37) (u16 (evc (cs s) + 1)) t (last_lat (cs s)))) = None)
+      by (cbn [deferred set_cs]; exact D).
+    destruct (pending_not_yet c _ s8 it8 H8 (or_introl D7)) as [-> _].
+    right. left. unfold idle_step. cbn [deferred st tm chan bf cs evc set_pending_event set_cs].
+    repeat split; try congruence. apply u16_lt.
+Qed.
+
+(* ========================================================================================== the invariant after a step *)
+Lemma Inv_ended c s s8 : ended c s s8 -> pdus_ok (rxq (bf s)) -> Inv c s8.
+Proof. intros (sx & -> & X2 & X3) R. apply Inv_force_disconnect; [exact X2|rewrite X3; exact R]. Qed.
+
+Lemma Inv_idle_step c s s8 :
+  idle_step s s8 -> in_connection s = true -> latency (tm s) <= 499 -> pdus_ok (rxq (bf s)) -> Inv c s8.
+Proof.
+  intros (A1 & A2 & A3 & A4 & A5 & A6 & A7) C L R. unfold Inv.
+  split; [exact A7|]. split; [intros _; exact A2|]. split; [intros _; rewrite A4; exact L|].
+  split; [intros b F; congruence|rewrite A6; exact R].
+Qed.
+
+Lemma Inv_waiting c b l s s8 it8 :
+  waiting_step b l s s8 it8 -> in_connection s = true -> latency (tm s) <= 499 -> pdus_ok (rxq (bf s)) ->
+  def_instant s < 65536 -> dist s <= 32766 -> (disarmable c = true -> dist s8 + last_lat (cs s8) <= 32767) -> Inv c s8.
+Proof.
+  intros (A1 & A2 & A3 & A4 & A5 & A6 & A7 & A8 & A9 & A10 & A11 & A12) C L R Hi Hd Hll. unfold Inv.
+  split; [exact A11|]. split; [rewrite (in_connection_st _ _ A7), C; discriminate|]. split; [intros _; rewrite A8; exact L|].
+  split; [|rewrite A10; exact R].
+  intros b' _. split; [congruence|lia|lia|exact Hll].
+Qed.
+
+Lemma Inv_applied c b s s8 it8 :
+  applied_step c b s s8 it8 -> in_connection s = true -> latency (tm s) <= 499 -> pdus_ok (rxq (bf s)) ->
+  def_instant s < 65536 -> Inv c s8 /\ in_connection s8 = true.
+Proof.
+  intros (A1 & A2 & A3 & A4 & A5 & A6 & A7) C L R Hi.
+  assert (X : in_connection s8 = true /\ latency (tm s8) <= 499).
+  { destruct A7 as [(B1 & (B2 & B3 & B4) & B5)|[(B1 & B2 & (B3 & B4 & B5) & B6 & B7)|(B1 & B2 & B3 & B4 & B5 & B6)]].
+    - rewrite (in_connection_st _ _ B4), B3. auto.
+    - split; [unfold in_connection; rewrite B5; reflexivity|]. rewrite B3.
+      destruct (parse_update b) as [t ok] eqn:P. cbn [fst snd] in *. subst ok. exact (parse_update_latency b t P).
+    - rewrite (in_connection_st _ _ B5), B3. auto. }
+  destruct X as (X1 & X2). split; [|exact X1]. unfold Inv.
+  split; [rewrite A3; exact Hi|]. split; [intros _; exact A2|]. split; [intros _; exact X2|].
+  split; [intros b' F; congruence|rewrite A5; exact R].
+Qed.
+
+(* ========================================================================================== end_event *)
+Lemma prologue_frame c s :
+  let sP := end_event_prologue c s in
+  in_connection s = true ->
+  in_connection sP = true /\ cs sP = cs s /\ deferred sP = deferred s /\ def_instant sP = def_instant s
+  /\ latency (tm sP) = latency (tm s) /\ rxq (bf sP) = rxq (bf s) /\ chan sP = chan s.
+Proof.
+  unfold end_event_prologue. intros C.
+  set (s0 := set_pending_event s false).
+  set (s1 := match st s0 with Connecting => _ | _ => s0 end).
+  assert (K : keep s s1).
+  { apply keep_trans with s0; [subst s0; kp|]. subst s1. destruct (st s0); try apply keep_refl. apply keep_push_event. }
+  destruct K as (K1 & K2 & K3 & K4 & K5 & K6 & K7). clearbody s1.
+  destruct (lstate_eqb (st s1) Disconnecting).
+  - rewrite (in_connection_st _ _ K1). repeat split; congruence.
+  - cbn [in_connection st cs deferred def_instant tm bf chan latency upd_tm set_tm set_st set_tw_size].
+    repeat split; congruence.
+Qed.
+
+Lemma Inv_end_event c s evts s' it :
+  Inv c s -> in_connection s = true -> do_end_event c s evts = Some (s', it) -> Inv c s'.
+Proof.
+  intros (I1 & I2 & I3 & I4 & I5) C H. unfold do_end_event in H.
+  destruct (end_event_body c (end_event_prologue c s) evts) as [[s9 it9]|] eqn:B; cbn [obind] in H; [|discriminate].
+  assert (E' : s' = fst (end_event_epilogue c s9 it9)) by (inversion H; reflexivity). subst s'. clear H.
+  apply Inv_keep with s9; [apply keep_epilogue|].
+  destruct (prologue_frame c s C) as (P1 & P2 & P3 & P4 & P5 & P6 & P7).
+  set (sP := end_event_prologue c s) in *. clearbody sP.
+  unfold end_event_body in B.
+  destruct (lstate_eqb (st sP) Disconnecting && term_sent sP && negb (pending_outgoing_data_available sP)).
+  { inversion B as [B']. pose proof (Inv_force_disconnect c sP) as X. rewrite B' in X. cbn [fst] in X. apply X; congruence. }
+  pose proof (hrd_cases c (S (length (rxq (bf sP)))) sP) as R. cbn zeta in R.
+  destruct (handle_received_data (S (length (rxq (bf sP)))) c sP) as [[s3 it3] res]. cbn [fst snd] in R.
+  destruct R as (R1 & R2 & R3 & R4 & R5 & R6).
+  assert (Rx3 : pdus_ok (rxq (bf s3))).
+  { unfold pdus_ok in *. rewrite Forall_forall in *. intros p Hp. apply I5. rewrite <- P6. apply R5. exact Hp. }
+  assert (E3 : evc (cs s3) < 65536) by congruence.
+  destruct res.
+  2:{ destruct (force_disconnect c s3) as [s4 it4] eqn:F. inversion B; subst s9 it9.
+      pose proof (Inv_force_disconnect c s3 E3 Rx3) as X. rewrite F in X. exact X. }
+  destruct (end_event_continue c (send_control_pdus s3) evts) as [[s8 it8]|] eqn:E; cbn [obind] in B; [|discriminate].
+  inversion B; subst s9 it9. clear B.
+  destruct (keep_send_control s3) as (K1 & K2 & K3 & K4 & K5 & K6 & K7).
+  set (s4 := send_control_pdus s3) in *. clearbody s4.
+  assert (C4 : in_connection s4 = true) by (rewrite (in_connection_st s3 s4 K1), (in_connection_st sP s3 R1); exact P1).
+  assert (L4 : latency (tm s4) <= 499) by (rewrite K5, R3, P5; apply I3; exact C).
+  assert (E4 : evc (cs s4) < 65536) by congruence.
+  assert (Rx4 : pdus_ok (rxq (bf s4))) by (rewrite K7; exact Rx3).
+  (* what waits before planning: it waited before, or it was accepted in this event *)
+  assert (W : forall b, deferred s4 = Some b -> def_instant s4 < 65536 /\ 1 <= dist s4 <= 32766).
+  { intros b D. unfold dist. rewrite K4, K2, K3 in *. 
+    destruct R6 as [(Ra & Rb)|[Ra|(Ra & Rb & b' & Rc & (i & Rd) & l & Re)]]; [| discriminate |].
+    - rewrite Ra, P3 in D. destruct (I4 b D) as [Q1 Q2 Q3 Q4]. unfold dist in *. rewrite Rb, R2, P4, P2. auto.
+    - split.
+      + rewrite Rd. apply rd16_lt. unfold pdus_ok in I5. rewrite Forall_forall in I5.
+        apply (I5 (l, b')). rewrite <- P6. exact Re.
+      + rewrite R2. apply instant_not_passed. exact Rb. }
+  destruct (continue_cases c s4 evts s8 it8 E E4 L4) as [X|[X|[(b & l & X & Y)|(b & X)]]].
+  - intros b D. destruct (W b D) as (W1 & W2). split; [exact W1|lia].
+  - exact (Inv_ended c s4 s8 X Rx4).
+  - exact (Inv_idle_step c s4 s8 X C4 L4 Rx4).
+  - pose proof X as X'. destruct X' as (A1 & A2 & A3 & A4 & A5 & A6 & _). destruct (W b A1) as (W1 & W2).
+    apply (Inv_waiting c b l s4 s8 it8 X C4 L4 Rx4 W1); [lia|]. intros Hd. rewrite (Y Hd), A6. lia.
+  - pose proof X as X'. destruct X' as (A1 & _). destruct (W b A1) as (W1 & W2).
+    exact (proj1 (Inv_applied c b s4 s8 it8 X C4 L4 Rx4 W1)).
+Qed.
+
+(* ========================================================================================== the radio's part of an event *)
+Definition same6 (s s' : lstate_t) : Prop :=
+  st s' = st s /\ cs s' = cs s /\ deferred s' = deferred s /\ def_instant s' = def_instant s /\ tm s' = tm s /\ chan s' = chan s.
+
+Lemma Inv_same6 c s s' : same6 s s' -> pdus_ok (rxq (bf s')) -> Inv c s -> Inv c s'.
+Proof.
+  intros (K1 & K2 & K3 & K4 & K5 & K6) R (I1 & I2 & I3 & I4 & I5). unfold Inv.
+  rewrite (in_connection_st _ _ K1), K2, K3, K5.
+  split; [exact I1|]. split; [exact I2|]. split; [exact I3|]. split; [|exact R].
+  intros b D. destruct (I4 b D) as [P1 P2 P3 P4]. split; unfold dist in *; rewrite ?K4, ?K2; auto.
+Qed.
+
+Lemma radio_exchange_frame s rx :
+  let s1 := fst (fst (radio_exchange s rx)) in
+  same6 s s1 /\ (pdus_ok (rxq (bf s)) -> match rx with Some p => bytes_ok (snd p) | None => True end -> pdus_ok (rxq (bf s1))).
+Proof.
+  unfold radio_exchange. cbn zeta.
+  set (rq := match rx with Some (llid, body) => _ | None => rxq (bf s) end).
+  assert (Hrq : pdus_ok (rxq (bf s)) -> match rx with Some p => bytes_ok (snd p) | None => True end -> pdus_ok rq).
+  { intros R P. subst rq. destruct rx as [[llid body]|]; [|exact R].
+    destruct (negb _ && negb _); [|exact R]. unfold pdus_ok. apply Forall_app. split; [exact R|]. constructor; [exact P|constructor]. }
+  destruct (match fl (bf s) with FHead => tl (txq (bf s)) | _ => txq (bf s) end) as [|[l b] rest]; cbn [fst];
+    (split; [repeat split; reflexivity|exact Hrq]).
+Qed.
+
+Lemma radio_event_frame : forall fuel s pdus,
+  pdus_ok pdus -> pdus_ok (rxq (bf s)) ->
+  let s1 := fst (radio_event fuel s pdus) in same6 s s1 /\ pdus_ok (rxq (bf s1)).
+Proof.
+  induction fuel as [|fuel IH]; intros s pdus P R; cbn [radio_event].
+  - cbn [fst]. split; [repeat split; reflexivity|exact R].
+  - pose proof (radio_exchange_frame s (hd_error pdus)) as X. cbn zeta in X.
+    destruct (radio_exchange s (hd_error pdus)) as [[s1 it] md]. cbn [fst] in X.
+    destruct X as (X1 & X2).
+    assert (R1 : pdus_ok (rxq (bf s1))).
+    { apply X2; [exact R|]. destruct pdus as [|p r]; cbn [hd_error]; [exact I|]. inversion P; assumption. }
+    assert (P' : pdus_ok (tl pdus)) by (destruct pdus; [exact P|inversion P; assumption]).
+    destruct (match tl pdus with [] => md | _ => true end).
+    + specialize (IH s1 (tl pdus) P' R1). cbn zeta in IH.
+      destruct (radio_event fuel s1 (tl pdus)) as [s2 it2]. cbn [fst] in *.
+      destruct IH as ((A1 & A2 & A3 & A4 & A5 & A6) & IR). destruct X1 as (B1 & B2 & B3 & B4 & B5 & B6).
+      split; [repeat split; congruence|exact IR].
+    + cbn [fst]. split; [exact X1|exact R1].
+Qed.
+
+(* ========================================================================================== timeout() *)
+Lemma Inv_timeout c s s' it :
+  Inv c s -> in_connection s = true -> do_timeout c s = Some (s', it) -> Inv c s'.
+Proof.
+  intros I C H. unfold do_timeout in H.
+  set (s0 := set_pending_event s false) in H.
+  assert (K0 : keep s s0) by (subst s0; kp).
+  pose proof (Inv_keep c s s0 K0 I) as I0.
+  assert (C0 : in_connection s0 = true) by (rewrite (in_connection_st s s0 (proj1 K0)); exact C).
+  clearbody s0. clear K0 I C s.
+  destruct I0 as (I1 & I2 & I3 & I4 & I5).
+  match type of H with (do r <- ?x; _) = _ => destruct x as [[s2 it2]|] eqn:B end; cbn [obind] in H; [|discriminate].
+  assert (E' : s' = fst (flush_events s2)) by (destruct (flush_events s2); inversion H; reflexivity). subst s'. clear H.
+  apply Inv_keep with s2; [unfold flush_events; cbn [fst]; kp|].
+  destruct (lstate_eqb (st s0) Disconnecting && term_sent s0 && negb (pending_outgoing_data_available s0)).
+  { inversion B as [B']. pose proof (Inv_force_disconnect c s0 I1 I5) as X. rewrite B' in X. exact X. }
+  destruct (negb (proc_timeout s0 =? 0) && (proc_timeout s0 <=? tsle (cs s0))).
+  { inversion B as [B']. unfold force_disconnect_reason in B'.
+    pose proof (Inv_force_disconnect c (set_disc_reason s0 GenLL.connection_ll_response_timeout) I1 I5) as X. rewrite B' in X. exact X. }
+  destruct (dt_mul _ _) as [five|]; cbn [obind] in B; [|discriminate].
+  destruct ((tsle (cs s0) <? conn_timeout (tm s0)) && _).
+  2:{ inversion B as [B']. pose proof (Inv_force_disconnect c s0 I1 I5) as X. rewrite B' in X. exact X. }
+  destruct (plan_after_timeout s0) as [s1|] eqn:E1; cbn [obind] in B; [|discriminate].
+  destruct (missed_cases c s0 s1 s2 it2 E1 B I1) as [X|[X|[(b & X & Y)|(b & X)]]].
+  - intros b D. destruct (I4 b D) as [Q1 Q2 Q3 Q4]. auto.
+  - exact (Inv_ended c s0 s2 X I5).
+  - exact (Inv_idle_step c s0 s2 X C0 (I3 C0) I5).
+  - pose proof X as X'. destruct X' as (A1 & A2 & A3 & A4 & A5 & A6 & _). destruct (I4 b A1) as [Q1 Q2 Q3 Q4].
+    apply (Inv_waiting c b 1 s0 s2 it2 X C0 (I3 C0) I5 Q1 Q3). intros Hd. rewrite Y, A6. specialize (Q4 Hd). lia.
+  - pose proof X as X'. destruct X' as (A1 & _). destruct (I4 b A1) as [Q1 Q2 Q3 Q4].
+    exact (proj1 (Inv_applied c b s0 s2 it2 X C0 (I3 C0) I5 Q1)).
+Qed.
+
+(* ========================================================================================== try_event_cancelation() *)
+Lemma Inv_cancel c s bb us s' it : Inv c s -> do_cancel c s bb us = Some (s', it) -> Inv c s'.
+Proof.
+  intros I H. unfold do_cancel in H.
+  destruct ((lstate_eqb (st s) Connected || lstate_eqb (st s) Connecting) && pending_event s && disarmable c && negb (last_lat (cs s) =? 1)) eqn:G;
+    [|inversion H; subst; exact I].
+  destruct bb; [|inversion H; subst; exact I].
+  destruct (interval (tm s) =? 0); [discriminate|].
+  destruct (dt_add us (interval (tm s))) as [sum|]; cbn [obind] in H; [|discriminate].
+  destruct (dt_sub sum 1) as [sum1|]; cbn [obind] in H; [|discriminate].
+  set (times := N.max 1 (sum1 / interval (tm s))) in H.
+  set (moved := N.min times (last_lat (cs s))) in H.
+  set (count := last_lat (cs s) - moved) in H.
+  destruct (499 <? count) eqn:G499; [discriminate|].
+  destruct (dt_mul _ count) as [back|]; cbn [obind] in H; [|discriminate].
+  destruct (dt_sub _ back) as [t|]; cbn [obind] in H; [|discriminate].
+  set (s1 := set_cs s _) in H.
+  destruct (setup_next_connection_event s1) as [[s2 it2]|] eqn:E2; cbn [obind] in H; [|discriminate].
+  inversion H; subst s' it. clear H.
+  destruct (setup_next_spec _ _ _ E2) as [-> _].
+  assert (Hd : disarmable c = true) by (destruct (disarmable c); [reflexivity|rewrite !andb_false_r in G; cbn in G; discriminate]).
+  assert (Hc : count = 0 \/ count + 1 <= last_lat (cs s)).
+  { subst count moved times. destruct (N.eq_dec (last_lat (cs s)) 0) as [Z|Z]; [left; lia|right].
+    assert (1 <= N.min (N.max 1 (sum1 / interval (tm s))) (last_lat (cs s))) by (apply N.min_glb; lia). lia. }
+  destruct I as (I1 & I2 & I3 & I4 & I5). unfold Inv.
+  assert (S1 : st (set_pending_event s1 true) = st s /\ tm (set_pending_event s1 true) = tm s /\ deferred (set_pending_event s1 true) = deferred s
+               /\ rxq (bf (set_pending_event s1 true)) = rxq (bf s) /\ def_instant (set_pending_event s1 true) = def_instant s
+               /\ cs (set_pending_event s1 true) = mk_cstate ((ch_idx (cs s) + 518 - count) mod 37) (u16 (evc (cs s) + 65536 - count)) t 1)
+    by (subst s1; repeat split; reflexivity).
+  destruct S1 as (S1 & S2 & S3 & S4 & S5 & S6).
+  rewrite (in_connection_st _ _ S1), S2, S3, S4, S6. cbn [evc last_lat].
+  split; [apply u16_lt|]. split; [exact I2|]. split; [exact I3|]. split; [|exact I5].
+  intros b D. destruct (I4 b D) as [Q1 Q2 Q3 Q4]. specialize (Q4 Hd).
+  assert (Xd : dist (set_pending_event s1 true) = dist s + count).
+  { unfold dist. rewrite S5, S6. cbn [evc]. apply dist_back; auto. fold (dist s). lia. }
+  split; [congruence|lia| |intros _; rewrite S6; cbn [last_lat]]; lia.
+Qed.
+
+(* ========================================================================================== adv_received() *)
+Lemma adv_frame c s hdr0 body :
+  match do_adv_received c s hdr0 body with
+  | Some (s', it) =>
+      (st s' = Connecting /\ cs s' = mk_cstate 0 0 0 1 /\ deferred s' = deferred s /\ rxq (bf s') = [] /\ latency (tm s') <= 499)
+      \/ (st s' = st s /\ cs s' = cs s /\ deferred s' = deferred s /\ rxq (bf s') = rxq (bf s))
+  | None => True
+  end.
+Proof.
+  unfold do_adv_received.
+  destruct (valid_connect_request c hdr0 body); [|cbn; right; auto].
+  destruct (ChanMapModel.reset_impl _ _ _) as [ch r].
+  destruct r as [[|]| | | |]; try exact I; [|cbn; right; auto].
+  destruct (parse_connect body) as [t ok] eqn:P.
+  destruct ok as [[|]|]; try exact I; [|cbn; right; auto].
+  cbn zeta.
+  match goal with |- context [setup_next_connection_event ?x] => generalize (setup_next_spec x); destruct (setup_next_connection_event x) as [[s11 it11]|] end;
+    cbn [obind]; [|intros _; exact I].
+  intros G. destruct (G s11 it11 eq_refl) as [-> _]. clear G.
+  unfold flush_events. left.
+  match goal with |- context [set_ring (push_event c ?x ?e) []] => pose proof (keep_push_event c x e) as K end.
+  destruct K as (K1 & K2 & K3 & K4 & K5 & K6 & K7).
+  cbn [st cs deferred bf tm set_ring]. rewrite K1, K2, K3, K5, K7.
+  split; [vm_compute; reflexivity|]. split; [vm_compute; reflexivity|]. split; [vm_compute; reflexivity|]. split; [vm_compute; reflexivity|].
+  cbn [tm latency upd_sc set_sc set_pending_event upd_ac set_ac upd_bf set_bf set_proc_timeout set_disc_reason upd_pr set_pr set_used_features set_sca set_st set_cs set_tm].
+  exact (parse_connect_latency body t P).
+Qed.
+
+Lemma Inv_adv c s hdr0 body s' it :
+  Inv c s -> st s = Advertising -> do_adv_received c s hdr0 body = Some (s', it) -> Inv c s'.
+Proof.
+  intros (I1 & I2 & I3 & I4 & I5) S H.
+  assert (D : deferred s = None) by (apply I2; unfold in_connection; rewrite S; reflexivity).
+  pose proof (adv_frame c s hdr0 body) as F. rewrite H in F.
+  destruct F as [(F1 & F2 & F3 & F4 & F5)|(F1 & F2 & F3 & F4)].
+  - unfold Inv. unfold in_connection. rewrite F1, F2, F3, F4. cbn [evc].
+    split; [lia|]. split; [discriminate|]. split; [intros _; exact F5|]. split; [intros b F; congruence|constructor].
+  - apply Inv_advertising; congruence.
+Qed.
+
+(* ========================================================================================== every operation *)
+Theorem lstep_inv c s o : Inv c s -> op_ok o -> Inv c (fst (lstep c s o)).
+Proof.
+  intros I Ho. destruct o; cbn [lstep].
+  - (* Run *) destruct (st s) eqn:S; cbn [fst]; try exact I.
+    unfold start_advertising_impl, handle_start_advertising. cbn [fst].
+    destruct I as (I1 & I2 & I3 & I4 & I5). apply Inv_advertising; auto.
+  - (* AdvTimeout *) destruct (st s) eqn:S; cbn [fst]; try exact I.
+    unfold handle_adv_timeout. cbn [fst]. apply Inv_keep with s; [kp|exact I].
+  - (* Adv *) destruct (st s) eqn:S; cbn [fst]; try exact I.
+    destruct (255 <? _); cbn [fst]; [exact I|].
+    destruct (do_adv_received c s hdr0 body) as [[s' it]|] eqn:E; cbn [ok_items fst]; [|exact I].
+    exact (Inv_adv c s hdr0 body s' it I S E).
+  - (* Ev *) destruct (in_connection s) eqn:C; cbn [fst]; [|exact I].
+    match goal with |- context [existsb ?f pdus] => destruct (existsb f pdus) end; cbn [fst]; [exact I|].
+    pose proof (radio_event_frame (S (length pdus + length (txq (bf s)))) s pdus Ho (proj2 (proj2 (proj2 (proj2 I))))) as R.
+    cbn zeta in R. destruct (radio_event _ s pdus) as [s1 it1]. cbn [fst] in R. destruct R as (R1 & R2).
+    pose proof (Inv_same6 c s s1 R1 R2 I) as I1.
+    assert (C1 : in_connection s1 = true) by (rewrite (in_connection_st s s1 (proj1 R1)); exact C).
+    destruct (do_end_event c s1 evts) as [[s2 it2]|] eqn:E; cbn [fst]; [|exact I1].
+    exact (Inv_end_event c s1 evts s2 it2 I1 C1 E).
+  - (* Timeout *) destruct (in_connection s) eqn:C; cbn [fst]; [|exact I].
+    destruct (do_timeout c s) as [[s' it]|] eqn:E; cbn [ok_items fst]; [|exact I].
+    exact (Inv_timeout c s s' it I C E).
+  - (* Disconnect *) destruct (in_connection s) eqn:C; cbn [fst]; [|exact I].
+    match goal with |- context [reset_encryption c ?x] => pose proof (reset_encryption_keep c x) as K; destruct (reset_encryption c x) as [s2 it2] end.
+    cbn [fst] in *. destruct I as (I1 & I2 & I3 & I4 & I5).
+    destruct K as (K1 & K2 & K3 & K4 & K5 & K6 & K7). cbn [st cs deferred def_instant tm chan bf set_proc_timeout set_disc_reason set_term_sent set_st] in *.
+    unfold Inv. unfold in_connection at 1 2. rewrite K1, K2, K3, K5, K7.
+    split; [exact I1|]. split; [discriminate|]. split; [intros _; exact (I3 C)|]. split; [|exact I5].
+    intros b Db. destruct (I4 b Db) as [Q1 Q2 Q3 Q4]. split; unfold dist in *; rewrite ?K4, ?K2; auto.
+  - (* Cpu *) destruct (in_connection s); cbn [fst]; [|exact I].
+    destruct (bit _ _); [destruct (cpr_pending (pr s))|]; cbn [fst]; try exact I. apply Inv_keep with s; [kp|exact I].
+  - (* Cpr *) destruct (in_connection s); cbn [fst]; [|exact I].
+    destruct (_ || _); cbn [fst]; try exact I. apply Inv_keep with s; [kp|exact I].
+  - (* PhyReq *) destruct (in_connection s); cbn [fst]; [|exact I].
+    destruct (phy_pending (pr s)); cbn [fst]; try exact I. apply Inv_keep with s; [kp|exact I].
+  - (* VerReq *) destruct (in_connection s); cbn [fst]; [|exact I].
+    destruct (_ || _); cbn [fst]; try exact I. apply Inv_keep with s; [kp|exact I].
+  - (* TxAvail *) cbn [fst]. apply Inv_keep with s; [kp|exact I].
+  - (* Cancel *) destruct (do_cancel c s b us) as [[s' it]|] eqn:E; cbn [ok_items fst]; [|exact I].
+    exact (Inv_cancel c s b us s' it I E).
+  - (* CprReply *) destruct (c_cpr c); cbn [fst]; try exact I. apply Inv_keep with s; [kp|exact I].
+  - (* CprNeg *) destruct (c_cpr c); cbn [fst]; try exact I. apply Inv_keep with s; [kp|exact I].
+  - (* Key *) cbn [fst]. apply Inv_keep with s; [kp|exact I].
+  - (* St *) exact I.
+Qed.
+
+Lemma Inv_init c : Inv c (linit c).
+Proof.
+  unfold Inv, linit. cbn [cs evc in_connection st deferred tm latency bf rxq].
+  split; [lia|]. split; [reflexivity|]. split; [discriminate|]. split; [intros b F; discriminate|constructor].
+Qed.
+
+Theorem invariant_all_traces c : forall ops s, Inv c s -> Forall op_ok ops -> Inv c (lfinal c s ops).
+Proof.
+  induction ops as [|o t IH]; intros s I H; cbn [lfinal]; [exact I|].
+  inversion H; subst. apply IH; [apply lstep_inv; assumption|assumption].
+Qed.
+
+(* ========================================================================================== a waiting procedure, one event later *)
+Lemma applied_keep_r b s s8 s' it post : keep s8 s' -> no_phy post -> applied b s s8 it -> applied b s s' (it ++ post).
+Proof.
+  intros (K1 & K2 & K3 & K4 & K5 & K6 & K7) Hp (A0 & (ws & we & A1) & A2).
+  split; [congruence|]. split.
+  { exists ws, we. apply in_or_app. left. unfold data_channel in *. rewrite K2, K6, K5. exact A1. }
+  assert (NP : no_phy it -> no_phy (it ++ post)).
+  { intros H x y F. apply in_app_or in F. destruct F as [F|F]; [exact (H x y F)|exact (Hp x y F)]. }
+  destruct A2 as [(B1 & (B2 & B3 & B4) & B5)|[(B1 & B2 & (B3 & B4 & B5) & B6 & B7)|(B1 & B2 & B3 & B4 & B5 & B6)]].
+  - left. split; [exact B1|]. split; [|exact (NP B5)]. unfold applied_map. rewrite K6, K5, K1. auto.
+  - right. left. split; [exact B1|]. split; [exact B2|]. split; [|split; [exact B6|exact (NP B7)]].
+    unfold applied_update. rewrite K6, K5, K1. auto.
+  - right. right. split; [exact B1|]. split; [exact B2|]. repeat split; try congruence. apply in_or_app. left. exact B6.
+Qed.
+
+Lemma flush_no_phy s : no_phy (snd (flush_events s)).
+Proof. unfold flush_events, no_phy. cbn [snd]. intros x y F. apply in_map_iff in F. destruct F as (e & F & _). discriminate. Qed.
+
+(* the outcome of an event (taken place or missed) for a procedure [b] that waited in [s0]; [s] = the state the planning
+   starts from (same connection parameters and channel map as [s0], see the theorems below) *)
+Definition outcome (c : cfg) (b : list N) (s s' : lstate_t) (it : list item) : Prop :=
+  st s' = Advertising
+  \/ (deferred s' = Some b /\ def_instant s' = def_instant s /\ 1 <= dist s' /\ dist s' < dist s
+      /\ st s' = st s /\ tm s' = tm s /\ chan s' = chan s /\ rxq (bf s') = rxq (bf s) /\ no_phy it)
+  \/ (deferred s' = None /\ evc (cs s') = def_instant s /\ (disarmable c = true -> last_lat (cs s') = 1) /\ applied b s s' it).
+
+Lemma ended_advertising c s s8 : ended c s s8 -> st s8 = Advertising.
+Proof. intros (sx & -> & _). exact (proj1 (force_disconnect_frame c sx)). Qed.
+
+Lemma continue_outcome c s evts s8 it8 b :
+  end_event_continue c s evts = Some (s8, it8) -> deferred s = Some b ->
+  evc (cs s) < 65536 -> latency (tm s) <= 499 -> def_instant s < 65536 -> 1 <= dist s ->
+  outcome c b s s8 it8.
+Proof.
+  intros H D He Hl Hi Hd.
+  destruct (continue_cases c s evts s8 it8 H He Hl) as [X|[X|[(b' & l & X & Y)|(b' & X)]]].
+  - intros b0 D0. auto.
+  - left. exact (ended_advertising c s s8 X).
+  - destruct X as (X & _). congruence.
+  - destruct X as (A1 & A2 & A3 & A4 & A5 & A6 & A7 & A8 & A9 & A10 & A11 & A12).
+    assert (b' = b) by congruence. subst b'.
+    right. left. split; [exact A4|]. split; [exact A5|]. split; [lia|]. split; [lia|].
+    split; [exact A7|]. split; [exact A8|]. split; [exact A9|]. split; [exact A10|exact A12].
+  - destruct X as (A1 & A2 & A3 & A4 & A5). assert (b' = b) by congruence. subst b'.
+    right. right. split; [exact A2|]. split; [exact A3|]. split; [exact A4|exact A5].
+Qed.
+
+(* end_event(): while the procedure waits nothing of the receive queue is looked at, and the event ends the link, brings the
+   instant nearer, or is the instant *)
+Theorem end_event_pending c s evts s' it b :
+  Inv c s -> in_connection s = true -> deferred s = Some b -> do_end_event c s evts = Some (s', it) ->
+  exists it', outcome c b (end_event_prologue c s) s' it'
+              /\ (forall x, In x it' -> In x it) /\ (forall x y, In (IPhy x y) it -> st s' = Advertising \/ In (IPhy x y) it').
+Proof.
+  intros (I1 & I2 & I3 & I4 & I5) C D H. unfold do_end_event in H.
+  destruct (end_event_body c (end_event_prologue c s) evts) as [[s9 it9]|] eqn:B; cbn [obind] in H; [|discriminate].
+  assert (E' : s' = fst (end_event_epilogue c s9 it9) /\ it = snd (end_event_epilogue c s9 it9)) by (inversion H; split; reflexivity).
+  destruct E' as (-> & ->). clear H.
+  pose proof (keep_epilogue c s9 it9) as KE.
+  assert (IE : snd (end_event_epilogue c s9 it9) = it9 ++ snd (flush_events (match st s9 with Connected | Connecting => transmit_pending_control_pdus c s9 | _ => s9 end))).
+  { unfold end_event_epilogue. destruct (flush_events _). reflexivity. }
+  set (post := snd (flush_events _)) in IE. assert (NPo : no_phy post) by apply flush_no_phy. clearbody post.
+  set (s11 := fst (end_event_epilogue c s9 it9)) in *. clearbody s11. rewrite IE. clear IE.
+  destruct (prologue_frame c s C) as (P1 & P2 & P3 & P4 & P5 & P6 & P7).
+  set (sP := end_event_prologue c s) in *. clearbody sP.
+  destruct (I4 b D) as [Q1 Q2 Q3 Q4].
+  assert (DP : deferred sP = Some b) by congruence.
+  assert (XP : dist sP = dist s) by (unfold dist; congruence).
+  unfold end_event_body in B.
+  destruct (lstate_eqb (st sP) Disconnecting && term_sent sP && negb (pending_outgoing_data_available sP)).
+  { inversion B as [B']. exists []. split.
+    - left. destruct KE as (K1 & _). rewrite K1. pose proof (force_disconnect_frame c sP) as X. rewrite B' in X. exact (proj1 X).
+    - split; [intros x []|]. intros x y F. left.
+      destruct KE as (K1 & _). rewrite K1. pose proof (force_disconnect_frame c sP) as X. rewrite B' in X. exact (proj1 X). }
+  rewrite (hrd_blocked c _ sP b DP) in B.
+  destruct (end_event_continue c (send_control_pdus sP) evts) as [[s8 it8]|] eqn:E; cbn [obind] in B; [|discriminate].
+  inversion B; subst s9 it9. clear B. cbn [app].
+  destruct (keep_send_control sP) as (K1 & K2 & K3 & K4 & K5 & K6 & K7).
+  set (s4 := send_control_pdus sP) in *. clearbody s4.
+  assert (O : outcome c b s4 s8 it8).
+  { apply (continue_outcome c s4 evts s8 it8 b E); try congruence.
+    - rewrite K5, P5. apply I3. exact C.
+    - unfold dist. rewrite K4, K2. fold (dist sP). lia. }
+  exists (it8 ++ post). split; [|split; [auto|intros x y F; right; exact F]].
+  destruct KE as (E1 & E2 & E3 & E4 & E5 & E6 & E7).
+  destruct O as [O|[(O1 & O2 & O3 & O4 & O5 & O6 & O7 & O8 & O9)|(O1 & O2 & O3 & O4)]].
+  - left. congruence.
+  - right. left. unfold dist in *. rewrite E2, E3, E4, E1, E5, E6, E7.
+    split; [exact O1|]. split; [congruence|]. split; [exact O3|]. split; [rewrite <- K4, <- K2; exact O4|].
+    split; [congruence|]. split; [congruence|]. split; [congruence|]. split; [congruence|].
+    intros x y F. apply in_app_or in F. destruct F as [F|F]; [exact (O9 x y F)|exact (NPo x y F)].
+  - right. right. rewrite E2, E3. split; [exact O1|]. split; [congruence|]. split; [exact O3|].
+    apply applied_keep_r with s8; [repeat split; auto|exact NPo|].
+    replace it8 with ([] ++ it8) by reflexivity. apply applied_keep with s4; [repeat split; auto|intros x y []|exact O4].
+Qed.
+
+(* timeout(): the same for a missed event *)
+Theorem timeout_pending c s s' it b :
+  Inv c s -> in_connection s = true -> deferred s = Some b -> do_timeout c s = Some (s', it) ->
+  exists it', outcome c b s s' it' /\ (forall x, In x it' -> In x it)
+              /\ (forall x y, In (IPhy x y) it -> st s' = Advertising \/ In (IPhy x y) it').
+Proof.
+  intros (I1 & I2 & I3 & I4 & I5) C D H. unfold do_timeout in H.
+  set (s0 := set_pending_event s false) in H.
+  assert (K0 : keep s s0) by (subst s0; kp). destruct K0 as (K1 & K2 & K3 & K4 & K5 & K6 & K7). clearbody s0.
+  match type of H with (do r <- ?x; _) = _ => destruct x as [[s2 it2]|] eqn:B end; cbn [obind] in H; [|discriminate].
+  assert (E' : s' = fst (flush_events s2) /\ it = it2 ++ snd (flush_events s2)) by (destruct (flush_events s2); inversion H; split; reflexivity).
+  destruct E' as (-> & ->). clear H.
+  assert (KF : keep s2 (fst (flush_events s2))) by (unfold flush_events; cbn [fst]; kp).
+  pose proof (flush_no_phy s2) as NPo. set (post := snd (flush_events s2)) in *. clearbody post.
+  set (s3 := fst (flush_events s2)) in *. clearbody s3.
+  destruct KF as (E1 & E2 & E3 & E4 & E5 & E6 & E7).
+  assert (ADV : forall sx, force_disconnect c sx = (s2, it2) ->
+          exists it', outcome c b s s3 it' /\ (forall x, In x it' -> In x (it2 ++ post))
+                      /\ (forall x y, In (IPhy x y) (it2 ++ post) -> st s3 = Advertising \/ In (IPhy x y) it')).
+  { intros sx F. pose proof (force_disconnect_frame c sx) as X. rewrite F in X. cbn [fst] in X.
+    exists []. split; [left; rewrite E1; exact (proj1 X)|]. split; [intros x []|]. intros x y _. left. rewrite E1. exact (proj1 X). }
+  destruct (lstate_eqb (st s0) Disconnecting && term_sent s0 && negb (pending_outgoing_data_available s0)).
+  { inversion B as [B']. exact (ADV _ B'). }
+  destruct (negb (proc_timeout s0 =? 0) && (proc_timeout s0 <=? tsle (cs s0))).
+  { inversion B as [B']. exact (ADV _ B'). }
+  destruct (dt_mul _ _) as [five|]; cbn [obind] in B; [|discriminate].
+  destruct ((tsle (cs s0) <? conn_timeout (tm s0)) && _).
+  2:{ inversion B as [B']. exact (ADV _ B'). }
+  destruct (plan_after_timeout s0) as [s1|] eqn:P1; cbn [obind] in B; [|discriminate].
+  destruct (I4 b D) as [Q1 Q2 Q3 Q4].
+  assert (X0 : dist s0 = dist s) by (unfold dist; congruence).
+  exists (it2 ++ post). split; [|split; [auto|intros x y F; right; exact F]].
+  destruct (missed_cases c s0 s1 s2 it2 P1 B) as [X|[X|[(b' & X & Y)|(b' & X)]]].
+  - congruence.
+  - intros b0 D0. split; [congruence|lia].
+  - left. rewrite E1. exact (ended_advertising c s0 s2 X).
+  - destruct X as (X & _). congruence.
+  - destruct X as (A1 & A2 & A3 & A4 & A5 & A6 & A7 & A8 & A9 & A10 & A11 & A12).
+    assert (b' = b) by congruence. subst b'.
+    right. left. unfold dist in *. rewrite E2, E3, E4, E1, E5, E6, E7.
+    split; [exact A4|]. split; [congruence|]. split; [rewrite A6; lia|]. split; [rewrite A6; lia|].
+    split; [congruence|]. split; [congruence|]. split; [congruence|]. split; [congruence|].
+    intros x y F. apply in_app_or in F. destruct F as [F|F]; [exact (A12 x y F)|exact (NPo x y F)].
+  - destruct X as (A1 & A2 & A3 & A4 & A5). assert (b' = b) by congruence. subst b'.
+    right. right. rewrite E2, E3. split; [exact A2|]. split; [congruence|]. split; [exact A4|].
+    apply applied_keep_r with s2; [repeat split; auto|exact NPo|].
+    replace it2 with ([] ++ it2) by reflexivity. apply applied_keep with s0; [repeat split; auto|intros x y []|exact A5].
+Qed.
+
+(* after the procedure was applied the planned event - the instant - can not be moved any more *)
+Theorem cancel_after_applied c s bb us :
+  (disarmable c = true -> last_lat (cs s) = 1) -> do_cancel c s bb us = Some (s, []).
+Proof.
+  intros H. unfold do_cancel. destruct (disarmable c) eqn:Hd.
+  - rewrite (H eq_refl). cbn [N.eqb Pos.eqb negb]. rewrite andb_false_r. reflexivity.
+  - rewrite andb_false_r. reflexivity.
+Qed.
+
+(* ========================================================================================== one operation, any sequence *)
+Definition event_op (o : lop) : bool := match o with Ev _ _ | Timeout => true | _ => false end.
+
+(* what one connection event (taken place or missed) does to a procedure [b] waiting in [s] *)
+Definition progress (s s' : lstate_t) (b : list N) : Prop :=
+  in_connection s' = false
+  \/ (in_connection s' = true /\ deferred s' = Some b /\ def_instant s' = def_instant s /\ 1 <= dist s' /\ dist s' < dist s
+      /\ chan s' = chan s /\ interval (tm s') = interval (tm s) /\ latency (tm s') = latency (tm s))
+  \/ (deferred s' = None /\ evc (cs s') = def_instant s /\ in_connection s' = true).
+
+Lemma outcome_progress c b s0 s s' it :
+  outcome c b s s' it -> in_connection s = true -> def_instant s = def_instant s0 -> dist s = dist s0 -> chan s = chan s0 ->
+  interval (tm s) = interval (tm s0) -> latency (tm s) = latency (tm s0) -> latency (tm s) <= 499 ->
+  progress s0 s' b.
+Proof.
+  intros [O|[(O1 & O2 & O3 & O4 & O5 & O6 & O7 & O8 & O9)|(O1 & O2 & O3 & O4)]] C E1 E2 E3 E4 E5 L.
+  - left. unfold in_connection. rewrite O. reflexivity.
+  - right. left. rewrite (in_connection_st _ _ O5), O6, O7. repeat split; auto; congruence.
+  - right. right. split; [exact O1|]. split; [congruence|].
+    destruct O4 as (_ & _ & [(B1 & (B2 & B3 & B4) & B5)|[(B1 & B2 & (B3 & B4 & B5) & B6 & B7)|(B1 & B2 & B3 & B4 & B5 & B6)]]).
+    + rewrite (in_connection_st _ _ B4). exact C.
+    + unfold in_connection. rewrite B5. reflexivity.
+    + rewrite (in_connection_st _ _ B5). exact C.
+Qed.
+
+Theorem lstep_progress c s o b :
+  Inv c s -> op_ok o -> event_op o = true -> in_connection s = true -> deferred s = Some b ->
+  match snd (lstep c s o) with OItems _ => progress s (fst (lstep c s o)) b | _ => True end.
+Proof.
+  intros I Ho He C D. destruct o; try discriminate; cbn [lstep]; rewrite C.
+  - (* Ev *)
+    match goal with |- context [existsb ?f pdus] => destruct (existsb f pdus) end; cbn [snd]; [exact Logic.I|].
+    pose proof (radio_event_frame (S (length pdus + length (txq (bf s)))) s pdus Ho (proj2 (proj2 (proj2 (proj2 I))))) as R.
+    cbn zeta in R. destruct (radio_event _ s pdus) as [s1 it1]. cbn [fst] in R. destruct R as (R1 & R2).
+    pose proof (Inv_same6 c s s1 R1 R2 I) as I1. destruct R1 as (A1 & A2 & A3 & A4 & A5 & A6).
+    assert (C1 : in_connection s1 = true) by (rewrite (in_connection_st s s1 A1); exact C).
+    destruct (do_end_event c s1 evts) as [[s2 it2]|] eqn:E; cbn [fst snd]; [|exact Logic.I].
+    destruct (end_event_pending c s1 evts s2 it2 b I1 C1 (eq_trans A3 D) E) as (it' & O & _).
+    destruct (prologue_frame c s1 C1) as (P1 & P2 & P3 & P4 & P5 & P6 & P7).
+    assert (PI : interval (tm (end_event_prologue c s1)) = interval (tm s1)).
+    { unfold end_event_prologue. set (x := match st (set_pending_event s1 false) with Connecting => _ | _ => _ end).
+      assert (K : keep s1 x) by (subst x; eapply keep_trans; [|destruct (st (set_pending_event s1 false)); [apply keep_refl|apply keep_refl|apply keep_push_event|apply keep_refl|apply keep_refl|apply keep_refl]]; kp).
+      destruct K as (_ & _ & _ & _ & K5 & _). destruct (lstate_eqb (st x) Disconnecting); [congruence|]. cbn [tm interval upd_tm set_tm set_st set_tw_size]. congruence. }
+    apply (outcome_progress c b s (end_event_prologue c s1) s2 it' O P1); try congruence.
+    + unfold dist. congruence.
+    + rewrite P5, A5. apply (proj1 (proj2 (proj2 I))). exact C.
+  - (* Timeout *)
+    destruct (do_timeout c s) as [[s2 it2]|] eqn:E; cbn [ok_items fst snd]; [|exact Logic.I].
+    destruct (timeout_pending c s s2 it2 b I C D E) as (it' & O & _).
+    apply (outcome_progress c b s s s2 it' O C); auto. apply (proj1 (proj2 (proj2 I))). exact C.
+Qed.
+
+(* every operation of [ops] is a connection event (taken place or missed) that the link layer survives *)
+Fixpoint events_run (c : cfg) (s : lstate_t) (ops : list lop) : Prop :=
+  match ops with
+  | [] => True
+  | o :: t => event_op o = true /\ op_ok o /\ (exists it, snd (lstep c s o) = OItems it) /\ events_run c (fst (lstep c s o)) t
+  end.
+
+(* A waiting procedure is resolved - applied at its instant, or the link is gone - after at most as many connection
+   events as its instant is away, whatever is received and whichever events are lost in between *)
+Theorem resolved_within_distance c : forall ops s b,
+  Inv c s -> in_connection s = true -> deferred s = Some b -> events_run c s ops -> dist s <= N.of_nat (length ops) ->
+  exists pre post, ops = pre ++ post /\ N.of_nat (length pre) <= dist s /\
+    (in_connection (lfinal c s pre) = false
+     \/ (deferred (lfinal c s pre) = None /\ evc (cs (lfinal c s pre)) = def_instant s)).
+Proof.
+  induction ops as [|o t IH]; intros s b I C D R L.
+  - destruct I as (_ & _ & _ & I4 & _). destruct (I4 b D) as [_ Q _ _]. cbn in L. lia.
+  - destruct R as (R1 & R2 & (it & R3) & R4).
+    pose proof (lstep_progress c s o b I R2 R1 C D) as P. rewrite R3 in P.
+    pose proof (lstep_inv c s o I R2) as I'.
+    destruct (I' ) as (_ & _ & _ & I4' & _).
+    assert (Q : 1 <= dist s) by (destruct I as (_ & _ & _ & I4 & _); destruct (I4 b D); assumption).
+    destruct P as [P|[(P0 & P1 & P2 & P3 & P4 & _)|(P1 & P2 & _)]].
+    + exists [o], t. split; [reflexivity|]. split; [cbn; lia|]. left. exact P.
+    + destruct (IH (fst (lstep c s o)) b I' P0 P1 R4) as (pre & post & E1 & E2 & E3).
+      { cbn [length] in L. lia. }
+      exists (o :: pre), post. split; [cbn; congruence|]. split; [cbn [length]; lia|].
+      cbn [lfinal]. rewrite <- P2. exact E3.
+    + exists [o], t. split; [reflexivity|]. split; [cbn; lia|]. right. cbn [lfinal]. auto.
+Qed.
+
+(* ========================================================================================== the decision on reception *)
+Definition refused (pr : proc21) (inst evc : N) : bool :=
+  instant_passed inst evc || match pr with PUpdate _ _ _ _ _ => inst =? evc + 1 | _ => false end.
+
+Theorem accept_spec c s body pr inst :
+  classify21 (c_phy c) (3, body) = Some (pr, inst) ->
+  let r := handle_ll_control c s body in
+  (refused pr inst (evc (cs s)) = true /\ snd r = DoDisconnect /\ disc_reason (fst (fst r)) = 40 /\ snd (fst r) = [])
+  \/ (refused pr inst (evc (cs s)) = false /\ snd r = GoAhead /\ deferred (fst (fst r)) = Some body /\ def_instant (fst (fst r)) = inst
+      /\ snd (fst r) = []).
+Proof.
+  unfold classify21. cbn [N.eqb Pos.eqb negb].
+  destruct ((N.of_nat (length body) =? 12) && (byte body 0 =? 0)) eqn:U.
+  { intros H. inversion H; subst pr inst. clear H. apply andb_prop in U. destruct U as (U1 & U2).
+    apply N.eqb_eq in U1. apply N.eqb_eq in U2.
+    unfold handle_ll_control, refused. rewrite U1. cbn [N.ltb N.compare]. rewrite U2.
+    replace (ctrl_kind c (ver_received (pr s)) 0 12) with KUpdate by reflexivity.
+    unfold instant_passed_update. cbn zeta.
+    destruct (instant_passed (rd16 body 10) (evc (cs s)) || (rd16 body 10 =? evc (cs s) + 1)); cbn [fst snd]; [left|right]; repeat split; reflexivity. }
+  destruct ((N.of_nat (length body) =? 8) && (byte body 0 =? 1)) eqn:M.
+  { intros H. inversion H; subst pr inst. clear H. apply andb_prop in M. destruct M as (U1 & U2).
+    apply N.eqb_eq in U1. apply N.eqb_eq in U2.
+    unfold handle_ll_control, refused. rewrite U1. cbn [N.ltb N.compare]. rewrite U2.
+    replace (ctrl_kind c (ver_received (pr s)) 1 8) with KChannelMap by (unfold ctrl_kind; destruct (ver_received (pr s)); reflexivity).
+    unfold instant_passed_map. cbn zeta. rewrite orb_false_r.
+    destruct (instant_passed (rd16 body 6) (evc (cs s))); cbn [fst snd]; [left|right]; repeat split; reflexivity. }
+  match goal with |- context [if ?x then _ else _] => destruct x eqn:P end; [|discriminate].
+  intros H. inversion H; subst pr inst. clear H.
+  repeat (apply andb_prop in P; destruct P as (P & ?)).
+  apply N.eqb_eq in H2. apply N.eqb_eq in H3.
+  unfold handle_ll_control, refused. rewrite H3. cbn [N.ltb N.compare]. rewrite H2.
+  replace (ctrl_kind c (ver_received (pr s)) 24 5) with KPhyUpdate
+    by (unfold ctrl_kind; rewrite P; destruct (c_enc c); destruct (ver_received (pr s)); reflexivity).
+  unfold valid_phy_encoding. unfold phy_code_ok in H0, H1. rewrite H0, H1. cbn [andb]. rewrite orb_false_r.
+  apply negb_true_iff in H. rewrite H. cbn zeta.
+  destruct (instant_passed (rd16 body 3) (evc (cs s))); cbn [fst snd]; [left|right]; repeat split; reflexivity.
+Qed.
+
+(* refused = not reachable, except for the connection update that names the NEXT connection event *)
+Lemma refused_spec pr inst e : inst < 65536 -> e < 65536 ->
+  refused pr inst e = negb (reachable inst e) || match pr with PUpdate _ _ _ _ _ => inst =? e + 1 | _ => false end.
+Proof. intros Hi He. unfold refused. rewrite (instant_passed_spec inst e Hi He). reflexivity. Qed.
+
+Lemma classify_instant_lt phy b pr inst : classify21 phy (3, b) = Some (pr, inst) -> bytes_ok b -> inst < 65536.
+Proof.
+  unfold classify21. cbn [N.eqb Pos.eqb negb]. intros H B.
+  destruct (_ && _) in H; [inversion H; apply rd16_lt; exact B|].
+  destruct (_ && _) in H; [inversion H; apply rd16_lt; exact B|].
+  destruct (_ && _) in H; [inversion H; apply rd16_lt; exact B|discriminate].
+Qed.
+
+(* an instant that can not be met ends the link, for all three procedures *)
+Theorem unreachable_ends_the_link c s body pr inst :
+  classify21 (c_phy c) (3, body) = Some (pr, inst) -> bytes_ok body -> evc (cs s) < 65536 ->
+  reachable inst (evc (cs s)) = false ->
+  snd (handle_ll_control c s body) = DoDisconnect /\ disc_reason (fst (fst (handle_ll_control c s body))) = 40.
+Proof.
+  intros H B E R. pose proof (classify_instant_lt _ _ _ _ H B) as Hi.
+  destruct (accept_spec c s body pr inst H) as [(A1 & A2 & A3 & _)|(A1 & _)]; [auto|].
+  rewrite (refused_spec pr inst _ Hi E), R in A1. discriminate.
+Qed.
+
+(* a reachable one is deferred - except the connection update that names the next connection event *)
+Definition reachable_is_deferred_full : Prop :=
+  forall c s body pr inst,
+    classify21 (c_phy c) (3, body) = Some (pr, inst) -> bytes_ok body -> evc (cs s) < 65536 ->
+    reachable inst (evc (cs s)) = true -> snd (handle_ll_control c s body) = GoAhead.
+
+Theorem reachable_is_deferred_partial c s body pr inst :
+  classify21 (c_phy c) (3, body) = Some (pr, inst) -> bytes_ok body -> evc (cs s) < 65536 ->
+  reachable inst (evc (cs s)) = true ->
+  match pr with PUpdate _ _ _ _ _ => inst <> evc (cs s) + 1 | _ => True end ->
+  snd (handle_ll_control c s body) = GoAhead /\ deferred (fst (fst (handle_ll_control c s body))) = Some body
+  /\ def_instant (fst (fst (handle_ll_control c s body))) = inst.
+Proof.
+  intros H B E R X. pose proof (classify_instant_lt _ _ _ _ H B) as Hi.
+  destruct (accept_spec c s body pr inst H) as [(A1 & _)|(A1 & A2 & A3 & A4 & _)]; [|auto].
+  rewrite (refused_spec pr inst _ Hi E), R in A1. cbn [negb orb] in A1. destruct pr; try discriminate.
+  apply N.eqb_eq in A1. contradiction.
+Qed.
+
+(* ========================================================================================== witnesses and examples *)
+Definition cfg21 : cfg := mk_cfg true false 100 CprNone true 31 [71; 17; 8; 21; 15; 192].
+(* CONNECT_IND of tests/link_layer/connected.hpp: interval 30 ms, supervision timeout 720 ms, all channels, hop 10; latency [lat] *)
+Definition connect21 (lat : N) : lop :=
+  Adv 197 [60; 28; 98; 146; 240; 72; 71; 17; 8; 21; 15; 192; 90; 179; 154; 175; 8; 129; 246; 3; 11; 0; 24; 0; lat; 0; 72; 0;
+           255; 255; 255; 255; 31; 170].
+Definition trace21 (ops : list lop) : list (lop * lout) := lrun cfg21 (linit cfg21) ops.
+Definition upd_pdu (ivl inst : N) : pdu := (3, [0; 1; 0; 0; ivl; 0; 0; 0; 72; 0; inst mod 256; inst / 256]).
+Definition map_pdu (inst : N) : pdu := (3, [1; 255; 3; 0; 0; 0; inst mod 256; inst / 256]).
+Definition phy_pdu (inst : N) : pdu := (3, [24; 2; 2; inst mod 256; inst / 256]).
+Definition att_pdu : pdu := (2, [3; 0; 4; 0; 2; 23; 0]).
+Definition ping_pdu : pdu := (3, [18]).
+(* what is observed when [ops] run, presented as if [claimed] had been the operations *)
+Definition observed_as (claimed ops : list lop) : list (lop * lout) := combine claimed (map snd (trace21 ops)).
+Definition verdict21 (tr : list (lop * lout)) : verdict := mrun21 cfg21 (minit21 cfg21) tr.
+Definition pre21 : list lop := [Run; connect21 0; Ev 0 []; Ev 0 []].     (* the next event has the counter 2 *)
+
+Lemma reachable_is_deferred_refuted : ~ reachable_is_deferred_full.
+Proof.
+  intros F.
+  specialize (F cfg21 (lfinal cfg21 (linit cfg21) pre21) (snd (upd_pdu 40 3)) (PUpdate 1 0 40 0 72) 3 eq_refl).
+  assert (B : bytes_ok (snd (upd_pdu 40 3))) by (unfold bytes_ok; repeat constructor).
+  specialize (F B). vm_compute in F. specialize (F eq_refl eq_refl). discriminate.
+Qed.
+
+(* a session with all three procedures, traffic while they wait, instants on missed events: accepted *)
+Definition session21 : list lop :=
+  [Run; connect21 0; Ev 0 []; Ev 0 [upd_pdu 40 4; att_pdu]; St; Ev 0 [att_pdu]; Timeout; St; Ev 0 []; Ev 0 [map_pdu 9]; Ev 0 [att_pdu]; St; Ev 0 [];
+   Timeout; Ev 0 []; Ev 0 [phy_pdu 12]; Ev 0 [ping_pdu]; Ev 0 []; St; Ev 0 [upd_pdu 24 16]; St; Ev 0 []; Timeout; Ev 0 []; St; Ev 0 []].
+Lemma session21_accepted : verdict21 (trace21 session21) = Ok.
+Proof. vm_compute. reflexivity. Qed.
+Lemma session21_hypotheses : Forall op_ok session21 /\ in_connection (lfinal cfg21 (linit cfg21) session21) = true.
+Proof. split; [repeat constructor|vm_compute; reflexivity]. Qed.
+
+(* the monitor rejects what the code did before the repair (outputs of a run in which the PDU is deferred / refused,
+   presented under the operation that should have been refused / deferred) and other deviations, one per clause *)
+Lemma monitor_rejects_accepted_passed_instant :
+  verdict21 (observed_as (pre21 ++ [Ev 0 [upd_pdu 40 2]; Ev 0 []]) (pre21 ++ [Ev 0 [upd_pdu 40 7]; Ev 0 []])) = Bad 3.
+Proof. vm_compute. reflexivity. Qed.
+Lemma monitor_rejects_refused_reachable_instant :
+  verdict21 (observed_as (pre21 ++ [Ev 0 [map_pdu 4]; Ev 0 []]) (pre21 ++ [Ev 0 [map_pdu 2]; Ev 0 []])) = Bad 7.
+Proof. vm_compute. reflexivity. Qed.
+Lemma monitor_rejects_late_application :
+  verdict21 (observed_as (pre21 ++ [Ev 0 [map_pdu 4]; Ev 0 []; Ev 0 []; Ev 0 []]) (pre21 ++ [Ev 0 [map_pdu 5]; Ev 0 []; Ev 0 []; Ev 0 []])) = Bad 4.
+Proof. vm_compute. reflexivity. Qed.
+Lemma monitor_rejects_early_application :
+  verdict21 (observed_as (pre21 ++ [Ev 0 [phy_pdu 5]; Ev 0 []; Ev 0 []; Ev 0 []]) (pre21 ++ [Ev 0 [phy_pdu 4]; Ev 0 []; Ev 0 []; Ev 0 []])) = Bad 1.
+Proof. vm_compute. reflexivity. Qed.
+Lemma monitor_rejects_other_parameters :
+  verdict21 (observed_as (pre21 ++ [Ev 0 [upd_pdu 80 4]; Ev 0 []; Ev 0 []]) (pre21 ++ [Ev 0 [upd_pdu 40 4]; Ev 0 []; Ev 0 []])) = Bad 2.
+Proof. vm_compute. reflexivity. Qed.
+Lemma monitor_rejects_skipped_instant :
+  verdict21 (observed_as [Run; connect21 3; Ev 0 []; Ev 2 [map_pdu 7]; Ev 0 []; Ev 0 []] [Run; connect21 3; Ev 0 []; Ev 2 [ping_pdu]; Ev 0 []; Ev 0 []]) = Bad 6.
+Proof. vm_compute. reflexivity. Qed.
+Lemma monitor_rejects_unanswered_request :
+  verdict21 (observed_as (pre21 ++ [Ev 0 [att_pdu]; Ev 0 []]) (pre21 ++ [Ev 0 []; Ev 0 []])) = Bad 5.
+Proof. vm_compute. reflexivity. Qed.
+
+(* the known finding: a connection update for the next connection event is refused by the (repaired) code *)
+Definition monitor_accepts_all_full : Prop := forall c ops, Forall op_ok ops -> accepts21 c (lrun c (linit c) ops).
+Definition witness_next_event : list lop := pre21 ++ [Ev 0 [upd_pdu 40 3]].
+Lemma witness_next_event_rejected : verdict21 (trace21 witness_next_event) = Bad 7.
+Proof. vm_compute. reflexivity. Qed.
+Lemma monitor_accepts_all_refuted : ~ monitor_accepts_all_full.
+Proof.
+  intros F. specialize (F cfg21 witness_next_event). unfold accepts21 in F.
+  assert (H : Forall op_ok witness_next_event) by (repeat constructor).
+  specialize (F H). pose proof witness_next_event_rejected as W. unfold verdict21, trace21 in W. congruence.
+Qed.
+
+(* with peripheral latency: the planned skip lands on the instant, the map is applied, a cancelation does not move the event *)
+Lemma cancel_after_application_example :
+  verdict21 (trace21 [Run; connect21 3; Ev 0 []; Ev 2 [map_pdu 8]; Ev 0 []; Cancel true 100; St; Ev 0 []]) = Ok
+  /\ nth 5 (map snd (trace21 [Run; connect21 3; Ev 0 []; Ev 2 [map_pdu 8]; Ev 0 []; Cancel true 100; St; Ev 0 []])) OPre = OItems [].
+Proof. vm_compute. split; reflexivity. Qed.
+
+(* the comparisons as they were written before the repair are not the Core's rule *)
+Lemma old_update_check_refuted : ~ (forall inst evc, inst < 65536 -> evc < 65536 -> old_update_check inst evc = negb (reachable inst evc)).
+Proof. intros F. specialize (F 5 5). vm_compute in F. specialize (F eq_refl eq_refl). discriminate. Qed.
+Lemma old_map_check_refuted : ~ (forall inst evc, inst < 65536 -> evc < 65536 -> old_map_check inst evc = negb (reachable inst evc)).
+Proof. intros F. specialize (F 5 5). vm_compute in F. specialize (F eq_refl eq_refl). discriminate. Qed.
+Lemma old_phy_check_refuted : ~ (forall inst evc, inst < 65536 -> evc < 65536 -> old_phy_check inst evc = negb (reachable inst evc)).
+Proof. intros F. specialize (F 4 5). vm_compute in F. specialize (F eq_refl eq_refl). discriminate. Qed.
